@@ -12,2701 +12,1023 @@ Definition show_fres (r : fres) : string :=
   end.
 Definition check (rs : list rune) : string := digest (show_fres (format_res rs)).
 Definition full (rs : list rune) : string := show_fres (format_res rs).
-Eval vm_compute in ("<<<M273>>>" ++ check (runes_of_ascii "packet len
-{  @calculatedFrom( ""`tick`"" )	repeat zchar[ 00
-    ]chars //	t
-`a\`
-    ,
-u8x
-// trailing space 
-// a // b
-MetaDataX `line1
-line2`
-    // c
-    ,@calculatedFrom( ""a\""b"" ) match
-    matchKey as asx {
-    [ ""CRC32"" , ""a\""b""
-]// " ++ [27880; 37322]%N ++ runes_of_ascii "
-:
-msg_type
-    ,
-    }
-, i8 string_ @calculatedFrom( ""{,}"" )
-    ,@lengthOf(
-lengthOf
-    //
-    ) zchar[42 ]
-    _x
-// packet A { u8 x, }
-/// triple
-`line1
-line2` ,
-    @lengthOf( asx) repeat// `tick` ""quote"" 'q'
-int8 Header , repeat crc {
-int8 i64_//x
-@calculatedFrom( ""{,}"" ) , } ,repeat _x i8i8 `line1
-line2` , float64// trailing space 
-stringy , MetaDataX { charz
-    { int16 matchKey, repeat
-    i64_,
-    char[ 00] Z9_ `
-` ,
-    match As
-    //x
-    as Packet { 3 : crc , [
-//	t
-// @lengthOf(
-1 ,
-00
-]: Header // " ++ [27880; 37322]%N ++ runes_of_ascii "
-,	255 :_x , 42 : body
-,	[0	] : chars
-    [ 4294967296
-, 65535 ] :chars , }
-/// triple
-// @lengthOf(
-,  }
-// trailing space 
-// @lengthOf(
-, } , } MetaData falsey {
-char[
-255
-] u128 , u8 Header`tab	here`
+Eval vm_compute in ("<<<M1531>>>" ++ check (runes_of_ascii "options { // c1a
+  // c1b
+LittleEndian // c2a
+  // c2b
+= true // c4a
+  // c4b
+; StringPrefixLenType
+    // c6
+= // c7a
+  // c7b
+u16 // c8a
+  // c8b
+; ArrayPrefixLenType
+    // c10
+= // c11a
+  // c11b
+u8 // c12a
+  // c12b
+; // c13
+FixedStringPadChar // c14
+= // c15a
+  // c15b
+'0' // c16a
+  // c16b
+;
+    // c17
+} // c18a
+  // c18b
+packet // c19a
+  // c19b
+Logout // c20
+{ // c21
+repeat // c22a
+  // c22b
+i16 // c23a
+  // c23b
+f1
+    // c24
 ,
-string float ,} root packet int { Logon i64_  ,
-    @calculatedFrom(
-""1""
-) zchar { u {
-    zchar[
-255 ] Pad , } , stringy {
-    Pad metadata `u8 x,` ,
-}	, repeat	string i8i8, char[]
-    As@calculatedFrom(
-""\n"" ) ,}
-    // " ++ [27880; 37322]%N ++ runes_of_ascii "
-    , @lengthOf( packetx // a // b
-) @lengthOf(
-    i64_ ) body `line1
-line2`,@lengthOf(roots)match
-// `tick` ""quote"" 'q'
-// trailing space 
-MetaDataX as uint8x { // `tick` ""quote"" 'q'
-[	007
-/// triple
-// " ++ [27880; 37322]%N ++ runes_of_ascii "
-, //x
-255
-    ,
-00]
-    :	body// c
-, [ 65535 , ""1"",// `tick` ""quote"" 'q'
-1  ,
-""\n""//	t
-, 1	,
-    ""CRC32""
-    ,
-    //	t
-    0
-    ] :trueish
-,
-} , uint64 Foo
-, zchar {metadata
-@lengthOf(Pad)//	t
-`crlf
-line` ,
-    match u as charz { 65535 :
-    //x
-    int
-[ ""1""]
-:
-// c
-//
-a1 , [4294967296 , 00,""" ++ [233]%N ++ runes_of_ascii "t" ++ [233]%N ++ runes_of_ascii """ , """ ++ [28040; 24687]%N ++ runes_of_ascii """ ,
-    00 ]: matchKey , [ ""a\\"" ] : Logon ,
-    },
-repeat rootA { int16
-Foo @lengthOf( rootA // " ++ [27880; 37322]%N ++ runes_of_ascii "
-),options1 `u8 x,` // trailing space 
-, }	,  },  match chars as u
-// " ++ [128512]%N ++ runes_of_ascii " emoji
-// " ++ [128512]%N ++ runes_of_ascii " emoji
-{ [//
-""it's"" , 007	, """ ++ [233]%N ++ runes_of_ascii "t" ++ [233]%N ++ runes_of_ascii """, ""abc"" ,""\n"" ,
-// " ++ [128512]%N ++ runes_of_ascii " emoji
-// " ++ [27880; 37322]%N ++ runes_of_ascii "
-"""" // c
-] :	repeatCount,
-65535
-    // " ++ [128512]%N ++ runes_of_ascii " emoji
-    :Z9_
-, [ 007  , ""abc"",""// no comment""
-, """ ++ [28040; 24687]%N ++ runes_of_ascii """ ] :  falsey ,
-00
-:
-    string_}
-,  char repeatCount , } packet Foo {char[]
-a1 @calculatedFrom( """")`line1
-line2`
-, uint16 // a // b
-MetaDataX
-    // packet A { u8 x, }
-    `say ""hi""`,char[] A ,
-// trailing space 
-// " ++ [128512]%N ++ runes_of_ascii " emoji
-f64 int @lengthOf(Pad  ) , u32
-    BodyLength
-, float64
-trueish @lengthOf(lengthOf )
-// `tick` ""quote"" 'q'
-// trailing space 
-`crlf
-line` , @tag(255 ) match Z9_ as tag { [ ""a\""b"",4294967296  ,  ""{,}"" ,""{,}""/// triple
-] :	Pad	, 1 : lengthOf ,	0123456789 : msg_type  , ""// no comment"":
-    BodyLength, [ ""1"" ] : string_ [3 , 0,1 , 1
-, ""\" ++ [233]%N ++ runes_of_ascii """ // " ++ [27880; 37322]%N ++ runes_of_ascii "
-,
-    """"
-    , 00
-    // c
-    ] // c
-: asx} , body `say ""hi""`// `tick` ""quote"" 'q'
-,	}options { x	='0'
-; u8x // " ++ [128512]%N ++ runes_of_ascii " emoji
-= u64;
-// c
-//	t
-string_ = ""a\""b"" }
-")).
-Eval vm_compute in ("<<<M4066>>>" ++ check (runes_of_ascii "  options
-{ 
-}
-
-    packet 
-        // packet A { u8 x, }
-packetx 
-{	crc
-
-    charz
-`` ,  leftPad
-
-    ,@tag( 3
-
-    )
-repeat uint64
-
-u128 
-`doc` 
-,
-    @tag( 
-007) 
-	    // c
-    // `tick` ""quote"" 'q'
-
-	Pad
-
-    roots /// triple
-, 
-@calculatedFrom( 	 // `tick` ""quote"" 'q'
-""CRC32""
-
-    )
-u8x	metadata ,
-    @tag(
-1
-)zchar[ 
-0123456789
-] i8i8 
-`a\`	, match	a1
-
-    as
-    As
-
-    {  ""a	b""
-: 
-roots ,[ ""\" ++ [233]%N ++ runes_of_ascii """ , ""abc"" 	 //
-	] : string_,
-}
-,
-
-    repeat 
-Header
-
-    {match 
-      // " ++ [128512]%N ++ runes_of_ascii " emoji
-
-	// c
-  f32a	as
-
-    _x { 
-4294967296
-:
-    // @lengthOf(
-	repeatCount  , 7 
-    //	t
-// @lengthOf(
-
-	:
-
-//x
-u8x ,
-
-    7 :
-    As  ,
-    } 	 // " ++ [128512]%N ++ runes_of_ascii " emoji
-,
-	i64 repeatCount
-@lengthOf(	a1
-    )
-
-,
-}
-    , 
-    // " ++ [128512]%N ++ runes_of_ascii " emoji
-	// " ++ [27880; 37322]%N ++ runes_of_ascii "
-	  }  packet pack  {
-
-    zchar[	// a // b
-  0
-
-    ]
-	stringy ,} /// triple
-  	root packet
-As
-
-{  
-  // @lengthOf(
-
-match 	 // `tick` ""quote"" 'q'
-	u8x as packetx //	t
-      {
-7
-
-: uint8x
-    65535
-    :
-int
-1 :T , ""{,}"" 
-:Foo
-
-,
-0123456789
-    // " ++ [128512]%N ++ runes_of_ascii " emoji
-  	// @lengthOf(
-	: Logon	,
-[ 65535 
-
-// " ++ [27880; 37322]%N ++ runes_of_ascii "
-	// `tick` ""quote"" 'q'
-      ]
-:len,
-
-}
-
-    ,
-repeat lengthOf 
-metadata , @calculatedFrom(	""" ++ [233]%N ++ runes_of_ascii "t" ++ [233]%N ++ runes_of_ascii """
-)
-
-    repeat
-
-    zchar[ 65535]
-As 
-`doc`
-
-    ,char[ 	 // trailing space 
-    7 ]
-
-    float	// @lengthOf(
-    @calculatedFrom(
-    //
-
-"""")
-	,
-float32
-
-a1`it's` 
-, @tag(
-3)  char[]
-BodyLength// @lengthOf(
-`line1
-line2`,
-    match int
-as
-
-asx
-	{
-	[""" ++ [28040; 24687]%N ++ runes_of_ascii """ ,0  ] : x_y_z
-,
-
-    1 :
-
-    Packet, ""{,}""	: falsey ,	255:charz,
-	[
-
-    ""{,}"",
-0123456789]
-:
-
-    uint8x
-
-,}	, crc
-@calculatedFrom( 
-""\" ++ [233]%N ++ runes_of_ascii """ 
-	// " ++ [128512]%N ++ runes_of_ascii " emoji
-		)`crlf
-line` , 
-match
-	packetx
-as
-Pad 
-{""packet"" 
-: //
-	  BodyLength
-
-    ,  } ,	@lengthOf(  BodyLength) @tag( 
-    // packet A { u8 x, }
-  	//x
-    00
-
-) @lengthOf( As)
-
-    match
-
-charz
-	as 
-len
-
-    {
-
-[//x
-""x y""  ]: _x  //x
-""it's""
-:
-
-i64_  ,0123456789 :	metadata 
-// packet A { u8 x, }
-  	//x
-  """ ++ [128512]%N ++ runes_of_ascii """
-	:
-trueish
-
-, 1  : Logon	,
-	}
-,
-
-    }	//	t
- 
-")).
-Eval vm_compute in ("<<<M1280>>>" ++ check (runes_of_ascii "options
-    {metadata
-    /// triple
-    =string ; }packet
-Header{@leftPad ( ' '
-)string//	t
-i8i8 `it's`
-// `tick` ""quote"" 'q'
-// `tick` ""quote"" 'q'
-,
-@lengthOf(// " ++ [27880; 37322]%N ++ runes_of_ascii "
-roots )	u
-@calculatedFrom( """ ++ [128512]%N ++ runes_of_ascii """ )
-, @tag(65535 // packet A { u8 x, }
-) match
-Pad as
-stringy// `tick` ""quote"" 'q'
-{3
-: f32a
-    ,""a\\""
-: i8i8
-,
-    [
-    """ ++ [128512]%N ++ runes_of_ascii """ ,
-7] :
-rootA , // " ++ [128512]%N ++ runes_of_ascii " emoji
-""a\""b"" : x_y_z
-,
-[ 0123456789 ,""a	b""  ]: Logon
-,
-} ,metadata {  char[] // `tick` ""quote"" 'q'
-chars @calculatedFrom(
-    """ ++ [128512]%N ++ runes_of_ascii """
-)`two words` , repeat asx	{ msg_type { int64 _x `
-`
-    ,repeat Z9_
-/// triple
-// `tick` ""quote"" 'q'
-,
-uint16 leftPad `line1
-line2`,
-    trueish x_y_z ``, } , // trailing space 
-zchar[ 4294967296// " ++ [27880; 37322]%N ++ runes_of_ascii "
+    // c25
+string // c26a
+  // c26b
+Ref
+    // c27
+, // c28a
+  // c28b
+@rightPad // c29a
+  // c29b
+( // c30a
+  // c30b
+'\x00' ) char[ 9 // c34a
+  // c34b
 ]
-chars `crlf
-line`, Logon `a\` ,
-} ,  char[]body ,
-    } ,  repeat u { int {
+    // c35
+Tail // c36
+, repeat
+    // c38
+char[ // c39
+6 // c40a
+  // c40b
+] Flags ,
+    // c43
 repeat
-    zchar{
-f64
-lengthOf @calculatedFrom(	""abc""  ) `" ++ [233]%N ++ runes_of_ascii "` ,/// triple
+    // c44
+char[ // c45a
+  // c45b
+3 ] // c47a
+  // c47b
+Acct // c48a
+  // c48b
+,
+    // c49
 }
-, As @calculatedFrom(
-    ""{,}"" )
-    // packet A { u8 x, }
-    , repeat  char[] // `tick` ""quote"" 'q'
-metadata
-, string// a // b
-calculatedFrom `two words` , }	, },
-    @rightPad
-( '0'
-)// " ++ [27880; 37322]%N ++ runes_of_ascii "
-@rightPad(
-    '0'  )
-@lengthOf( x )repeat leftPad `// not a comment`
-    ,
-@rightPad ( ' '
-)o  Z9_
-, }
+    // c50
 packet
-    Pad
-    {metadata trueish
-// c
-// " ++ [128512]%N ++ runes_of_ascii " emoji
-`u8 x,` ,
-    } options{ len
-// a // b
-// @lengthOf(
-=i64 f32a =  ""x y""; matchKey = ""packet"" ;  } packet lengthOf
-{char[ 7]
-// trailing space 
-/// triple
-MetaDataX
-@lengthOf(BodyLength
-)
-,int8 As @lengthOf( calculatedFrom  ) ``,repeat char[]
-// a // b
-// @lengthOf(
-As ,
-    body @calculatedFrom( /// triple
-""abc"" ) ,
-    repeat float64 MetaDataX `" ++ [28040; 24687; 31867; 22411]%N ++ runes_of_ascii "` // " ++ [27880; 37322]%N ++ runes_of_ascii "
+    // c51
+Party
+    // c52
+{ // c53a
+  // c53b
+char[ // c54
+2 // c55
+] // c56a
+  // c56b
+f1 // c57
+, u8 // c59a
+  // c59b
+Side2 // c60a
+  // c60b
+, // c61
+@leftPad // c62
+( // c63
+' ' // c64
+) // c65
+char[ 1 // c67a
+  // c67b
+] // c68
+venue // c69
+, // c70
+} // c71a
+  // c71b
+packet Order // c73a
+  // c73b
+{ // c74
+repeat i64 // c76
+Ref , InPx62 // c79
+{ // c80a
+  // c80b
+i32
+    // c81
+OrderId // c82
+, // c83
+} // c84a
+  // c84b
+, InNote53 // c86
+{ // c87
+InClordid80 // c88
+{ char[] // c90a
+  // c90b
+Acct // c91
 ,
-@tag(
-    4294967296 )	match u8x as crc
-{[
-""\n"" ,
-65535 ] : // packet A { u8 x, }
-_x , 255 : roots,} ,  } //	t")).
-Eval vm_compute in ("<<<M903>>>" ++ check (runes_of_ascii "// a // b
-packet //x
-leftPad{
-repeat// " ++ [27880; 37322]%N ++ runes_of_ascii "
-crc , repeat f32a{ roots i8i8 ,// trailing space 
-string_ msg_type ,
-    u128 {  match
-u as  o {
-""1"" : u8x ,  7: string_
-,""" ++ [233]%N ++ runes_of_ascii "t" ++ [233]%N ++ runes_of_ascii """ :trueish ,
-}, u16
-trueish
-    @lengthOf(_x)`a\` , }, u128{ x_y_z ,
-    Packet @lengthOf( /// triple
-rootA ) `{ , }` , } , }
-/// triple
-/// triple
-, @calculatedFrom( // `tick` ""quote"" 'q'
-""CRC32"" ) rootA@calculatedFrom(""\" ++ [233]%N ++ runes_of_ascii """ )
-    //
-    `tab	here`
+    // c92
+u32 Px // c94a
+  // c94b
+, // c95
+repeat // c96a
+  // c96b
+Party , // c98a
+  // c98b
+} , // c100
+InPrice12 {
+    // c102
+u8 // c103a
+  // c103b
+pad0 , }
+    // c106
+, // c107a
+  // c107b
+repeat // c108a
+  // c108b
+Logout // c109
+, InFlags23 { // c112a
+  // c112b
+repeat // c113
+string // c114a
+  // c114b
+seqNo
+    // c115
 ,
-// " ++ [128512]%N ++ runes_of_ascii " emoji
-// " ++ [27880; 37322]%N ++ runes_of_ascii "
-match A as
-    a1 { 7:
-u128 ,[
-""// no comment"" // " ++ [27880; 37322]%N ++ runes_of_ascii "
+    // c116
+string
+    // c117
+sym // c118
+, // c119
+int8 // c120
+Flags // c121a
+  // c121b
+,
+    // c122
+zchar[ // c123a
+  // c123b
+5 // c124a
+  // c124b
+] lastPx // c126
+, zchar[ // c128
+6 // c129a
+  // c129b
+] Px // c131
+, // c132a
+  // c132b
+} ,
+    // c134
+char[ // c135a
+  // c135b
+10 // c136a
+  // c136b
 ]
-    :  stringy """" :
-    i8i8 , 65535 : msg_type
-[7 ,""a\""b""
-,
-    65535  ,255 ,4294967296] : packetx// " ++ [27880; 37322]%N ++ runes_of_ascii "
-,
-    }, }	packet
-//x
-//
-a1
-    { uint16 tag,
-// " ++ [27880; 37322]%N ++ runes_of_ascii "
-// trailing space 
-Packet `a\` , }packet tag { } packet  msg_type
-{ options1
-    int `u8 x,` ,i64 calculatedFrom  , match rootA as
-pack	{ 0 : i64_ //	t
-,[""abc""
-    , 42, 42
-, 7 ] :
-zchar
-7
-:u8x , ""{,}"" //	t
-: len ,
-    } ,match packetx as i8i8 { 65535
-    : Foo """ ++ [28040; 24687]%N ++ runes_of_ascii """:
-repeatCount
-, }
-    , // a // b
-@rightPad // `tick` ""quote"" 'q'
-(
-' '
-) string Packet
-@lengthOf( _x
-) ,
-matchKey { // " ++ [27880; 37322]%N ++ runes_of_ascii "
-zchar
-    { f64
-    // `tick` ""quote"" 'q'
-    falsey
-//
-// " ++ [27880; 37322]%N ++ runes_of_ascii "
-`a\` , uint64 x_y_z `a\` , }
-    , } ,//x
-@rightPad
-// c
-// trailing space 
-(
-'0' )repeat
-    leftPad { uint32 stringy
-    // a // b
-    @calculatedFrom(
-"""")
-// a // b
-/// triple
-,
+    // c137
+Acct // c138a
+  // c138b
+, InPx18 // c140a
+  // c140b
+{ // c141
 zchar[
-    0123456789
-    ] MetaDataX`tab	here` //	t
-, char len`line1
-line2` , } , }root// @lengthOf(
-packet Header
-    // @lengthOf(
-    {}
-")).
-Eval vm_compute in ("<<<M1390>>>" ++ check (runes_of_ascii "options {
-	StringPrefixLenType = u16;
-	ArrayPrefixLenType = u16;
+    // c142
+2 ]
+    // c144
+count
+    // c145
+, // c146
+Party // c147a
+  // c147b
+, // c148a
+  // c148b
+} , // c150a
+  // c150b
 }
-
-packet SampleBinary {
-    uint16 MsgType `" ++ [28040; 24687; 31867; 22411]%N ++ runes_of_ascii "`,
-    u16 BodyLenght @lengthOf(Body) `" ++ [28040; 24687; 20307; 38271; 24230]%N ++ runes_of_ascii "`,
-    match MsgType as Body {
-        1 : Logon,
-        2 : Logout,
-        3 : Heartbeat,
-        4 : RiskControlRequest,
-        5 : RiskControlResponse,
-    },
-        @calculatedFrom(""CRC32"")
-    u32 Ckecksum `" ++ [26657; 39564; 21644]%N ++ runes_of_ascii "`,
-}
-
-packet Logon {
-     @leftPad('0')
-    char[10] UserName `" ++ [29992; 25143; 21517]%N ++ runes_of_ascii "`,
-    string Password `" ++ [23494; 30721]%N ++ runes_of_ascii "`,
-    uint64 ClientId `" ++ [23458; 25143; 31471]%N ++ runes_of_ascii "ID`,
-    u16 HeartbeatInterval `" ++ [24515; 36339; 38388; 38548]%N ++ runes_of_ascii "`,
-}
-
-packet Logout {
-      @rightPad('0')
-    char[10] UserName `" ++ [29992; 25143; 21517]%N ++ runes_of_ascii "`,
-    uint64 ClientId `" ++ [23458; 25143; 31471]%N ++ runes_of_ascii "ID`,
-}
-
-packet Heartbeat {
-}
-
-packet RiskControlRequest {
-    string UniqueOrderId `" ++ [21807; 19968; 35746; 21333; 21495]%N ++ runes_of_ascii "`,
-    char[16] ClOrdID `" ++ [23458; 25143; 35746; 21333; 21495]%N ++ runes_of_ascii "`,
-    char[3] MarketID `" ++ [24066; 22330]%N ++ runes_of_ascii "id`,
-    char[12] SecurityID `" ++ [35777; 21048; 20195; 30721]%N ++ runes_of_ascii "`,
-    char Side `" ++ [20080; 21334; 26041; 21521]%N ++ runes_of_ascii "`,
-    char OrderType `" ++ [35746; 21333; 31867; 22411]%N ++ runes_of_ascii "`,
-    u64 Price `" ++ [20215; 26684]%N ++ runes_of_ascii "`,
-    u32 Qty `" ++ [25968; 37327]%N ++ runes_of_ascii "`,
-    repeat string ExtraInfo `" ++ [38468; 21152; 20449; 24687]%N ++ runes_of_ascii "`,
-    repeat SubOrder {
-    		char[16] ClOrdID `" ++ [23376; 35746; 21333; 21495]%N ++ runes_of_ascii "`,
-    		u64 Price `" ++ [23376; 35746; 21333; 20215; 26684]%N ++ runes_of_ascii "`,
-    		u32 Qty `" ++ [23376; 35746; 21333; 25968; 37327]%N ++ runes_of_ascii "`,
-    	},
-}
-
-packet RiskControlResponse {
-    string UniqueOrderId `" ++ [21807; 19968; 35746; 21333; 21495]%N ++ runes_of_ascii "`,
-    i32 Status `" ++ [29366; 24577]%N ++ runes_of_ascii "`,
-    string Msg `" ++ [32467; 26524; 20449; 24687]%N ++ runes_of_ascii "`,
-    repeat Detail,
-}
-
-packet Detail {
-    string RuleName `" ++ [35268; 21017; 21517; 31216]%N ++ runes_of_ascii "`,
-    u16 Code `" ++ [21407; 22240; 20195; 30721]%N ++ runes_of_ascii "`,
-}")).
-Eval vm_compute in ("<<<M4219>>>" ++ check (runes_of_ascii "
-packet  x {
-
-    @tag( 
-
-//x
-
-  // a // b
-    3 )  @calculatedFrom(// `tick` ""quote"" 'q'
-    	""1""	) 
-@calculatedFrom( 	 // packet A { u8 x, }
-
-""{,}""
-    )o uint8x ,
-
-    repeat zchar[ 
-4294967296
-// " ++ [128512]%N ++ runes_of_ascii " emoji
-
-]Packet
-    ,
+    // c151
+, // c152
+char[ // c153
+5 // c154
+] // c155
+Side2 , // c157a
+  // c157b
+char[ // c158
+1
+    // c159
+]
+    // c160
+Acct , } // c163a
+  // c163b
+root packet // c165a
+  // c165b
+Ack {
+    // c167
+u32 // c168
+Tail
+    // c169
+, repeat char[ // c172a
+  // c172b
+4 // c173a
+  // c173b
+] // c174
+msgKind // c175a
+  // c175b
+, // c176a
+  // c176b
 repeat
-    trueish
-	{
-uint16	a1, 
-char[]
-matchKey	,
-float {uint64	A
-@calculatedFrom(
-
-    ""`tick`""
-// c
-  //x
-  ) , }
+    // c177
+Logout
+    // c178
 ,
-int32
-
-    tag
-
-,
+    // c179
 }
-	, @leftPad (
-    )	Foo
-
-{  leftPad	@calculatedFrom(
-	""{,}""
-	) ,//x
-		},
-@lengthOf(
-Z9_ )
-    uint64 pack 
-,
-}
-options
-	{ roots
-=
-	65535 ;
-	falsey =
-	10
-    ;	//x
-	x_y_z=
-' ' ;
-
-    MetaDataX = // `tick` ""quote"" 'q'
-false
-
-; }options
-
-    {
-	crc  = 
-true ; string_=
-
-false;
-	leftPad
-	= ' '
-;i8i8 = 
-    // c
-    '0' ; } root
-	packet
-    string_
-
-{
-
-    u16
-
-// trailing space 
-    rootA
-
-    @lengthOf( lengthOf	) `" ++ [233]%N ++ runes_of_ascii "` ,
-
-@lengthOf(
-
-chars 
-)@lengthOf( stringy
-
-) @lengthOf(
-falsey ) string
-Header  @calculatedFrom(""1"")
-    ,
-@calculatedFrom( ""a\""b""	)
-	@calculatedFrom(
-
-    ""`tick`"" ) @tag( 65535 ) uint8
-    //
-
-// " ++ [27880; 37322]%N ++ runes_of_ascii "
-f32a
-,
-
-@leftPad
-
-    () zchar[
-    42 // trailing space 
-	] a1@calculatedFrom(
-	""""	// " ++ [128512]%N ++ runes_of_ascii " emoji
-  ) ,
-        // a // b
-	// a // b
-  }
-
-    options
-	{len=
-	7
-	;
-} ")).
-Eval vm_compute in ("<<<M1170>>>" ++ check (runes_of_ascii "
-MetaData T
-{ leftPad msg_type, float Foo `doc`
-,
-uint64 charz `two words` ,
-    crc Pad `" ++ [28040; 24687; 31867; 22411]%N ++ runes_of_ascii "` ,  } root packet zchar
-{
-    @tag(  0123456789
-)
-    zchar[
-    42  ]
-lengthOf `" ++ [233]%N ++ runes_of_ascii "`
-    ,
-@tag(  0123456789)
-i64_
-i8i8	`say ""hi""`
-, Header
-    , @lengthOf(i64_
-)uint16 T
-// " ++ [128512]%N ++ runes_of_ascii " emoji
-// c
-@calculatedFrom(
-    ""x y"" ) , @lengthOf(/// triple
-u)
-    // a // b
-    As {int64 // `tick` ""quote"" 'q'
-options1
-@lengthOf( leftPad
-) `u8 x,` ,char[1	]
-falsey @lengthOf( Pad ) `u8 x,`
-    ,  char[]
-charz
-@lengthOf( Packet // c
-), repeat
-//x
-// " ++ [128512]%N ++ runes_of_ascii " emoji
-zchar { zchar[00
-    ]chars ,
-    msg_type @lengthOf(u128  )
-, } // " ++ [27880; 37322]%N ++ runes_of_ascii "
-,} , @leftPad ( '\x00' ) Foo @lengthOf(
-    Logon)
-, @lengthOf(Packet
-) repeat int {
-// @lengthOf(
-// trailing space 
-repeat char zchar , repeat
-string	stringy , string
-matchKey @calculatedFrom(""a	b"" ) `u8 x,`, }, match Logon as calculatedFrom { [ 42 ]
-:
-    x
-,""`tick`""
-:
-    x, 65535
-: Packet , },
-    char[ 7 ]trueish ``,
-match roots
-as
-    float { 007	: u8x// packet A { u8 x, }
-""\" ++ [233]%N ++ runes_of_ascii """ :MetaDataX // " ++ [27880; 37322]%N ++ runes_of_ascii "
-, //x
-[ 255 , ""{,}"",
-    """" , 255 ]// c
-:
-x_y_z , ""// no comment"" : Header // " ++ [27880; 37322]%N ++ runes_of_ascii "
-,} // " ++ [128512]%N ++ runes_of_ascii " emoji
-, }")).
-Eval vm_compute in ("<<<M125>>>" ++ check (runes_of_ascii "options {
-// a // b
-// trailing space 
-Pad
-    =
-// " ++ [128512]%N ++ runes_of_ascii " emoji
-// " ++ [128512]%N ++ runes_of_ascii " emoji
-false Logon = uint32 ; // " ++ [128512]%N ++ runes_of_ascii " emoji
-x_y_z =
-    1 }
-    MetaData
-// `tick` ""quote"" 'q'
-//	t
-_x
-    {
-    uint32
-stringy ,
-zchar[ 42
-    ] A,
-} packet A {
-    match As as string_/// triple
-{ 0 :
-/// triple
-// `tick` ""quote"" 'q'
-Z9_ ,}
-,  @lengthOf(
-    Z9_ )@lengthOf( x_y_z )As
-    @lengthOf( As )
-`doc` ,
-u64 calculatedFrom	@calculatedFrom(
-""abc"")
-`// not a comment` , // c
-Packet //	t
-string_ ,
-    // trailing space 
-    @lengthOf(  Z9_
-    ) Z9_ @lengthOf( body)// trailing space 
-,
-calculatedFrom
-BodyLength , @lengthOf( msg_type
-)repeat
-char tag `it's` ,
-}
-    packet zchar { @leftPad (
-//x
-//
-)
-    repeat zchar[ 3 ]Z9_
-, } // `tick` ""quote"" 'q'
-packet chars { @lengthOf( Z9_ ) repeat string crc , string MetaDataX ,@calculatedFrom( """"
-    )
-x
-    ,
-u8x//
-, @tag(10 ) match
-    falsey as	tag {""CRC32""	: x
-    , /// triple
-} //	t
-,
-x_y_z`tab	here`
-,
-@rightPad(
-'0'
-)int16
-Logon
-    ,trueish
-, @rightPad
-( )
-_x @calculatedFrom(
-""packet""// c
-), } // @lengthOf(")).
-Eval vm_compute in ("<<<M4512>>>" ++ check (runes_of_ascii "options {
-    chars = ' '
-}
-
-root packet string_ {
-    i8i8 @lengthOf(Z9_),
-    match int as chars {
-        007 : body,
-        [42] : int,
-        ""`tick`"" : options1,
-    },
-    @leftPad(' ')
-    uint16 crc `it's`,// a // b
-    float64 packetx @lengthOf(crc),
-    @tag(4294967296)
-    match int as chars {
-        4294967296 : Foo,
-        1 : asx,
-        10 : Pad,
-        0123456789 : string_,
-        3 : T,
-        ""it's"" : As,
-    },
-    repeat float falsey `say ""hi""`,
-    match uint8x as zchar {
-        ""// no comment"" : body,
-        0123456789 : crc,
-        ""{,}"" : o,
-    },
-    repeat o chars,
-    uint32 As `doc`,
-    repeat trueish {
-        char[7] i64_ `{ , }`,
-    },
-}
-
-packet Packet {
-    zchar[0123456789] matchKey @lengthOf(chars),
-    x {
-        u64 o,
-    },
-    zchar[1] MetaDataX @calculatedFrom(""""),
-    char[] lengthOf @calculatedFrom(""a\""b"") `
-        `,
-    @rightPad(' ')
-    //	t
-    uint16 len `a\`,
-    @lengthOf(tag)
-    char[65535] pack ``,
-}")).
-Eval vm_compute in ("<<<M573>>>" ++ check (runes_of_ascii "packet metadata{zchar[ 255] rootA@lengthOf( //	t
-stringy ) `` , Z9_
-@calculatedFrom(""\n"" ) ,i64_ , @calculatedFrom( ""abc"" )body `crlf
-line`
-    , // packet A { u8 x, }
-match metadata as
-leftPad { ""\n""
-    : stringy , ""it's"":
-rootA , [
-""packet"", 10 ]: lengthOf , 1  : zchar ,
-} , @tag( 3 )//x
-char[] x_y_z `u8 x,` , f64
-    o @lengthOf(o ) ,
-@calculatedFrom( // c
-""" ++ [28040; 24687]%N ++ runes_of_ascii """	)zchar[  007]
-options1 @lengthOf(  msg_type )
-,
-} MetaData T  { int16 u8x,char[
-    1 ]
-    repeatCount ,  uint16 i64_
-`u8 x,` ,
-    Header
-    x	`` // " ++ [128512]%N ++ runes_of_ascii " emoji
-, stringy
-msg_type
-`" ++ [28040; 24687; 31867; 22411]%N ++ runes_of_ascii "` ,	} packet
-i8i8
-{
-} packet
-Header {
-repeat Z9_ roots ,
-    }  packet calculatedFrom { T	@lengthOf( Foo )`u8 x,`
-    // " ++ [128512]%N ++ runes_of_ascii " emoji
-    , match tag as
-//	t
-// a // b
-charz { ""\" ++ [233]%N ++ runes_of_ascii """: string_ , [
-1,""" ++ [28040; 24687]%N ++ runes_of_ascii """
-,/// triple
-""CRC32""]: falsey , [ 007] :float	, 3 : MetaDataX ,
-[ ""`tick`""] :
-u , 1
-// trailing space 
-// packet A { u8 x, }
-: metadata ,}// `tick` ""quote"" 'q'
-,
-}
+    // c180
 ")).
-Eval vm_compute in ("<<<M4423>>>" ++ check (runes_of_ascii "MetaData Packet {
-    // `tick` ""quote"" 'q'
-    Header uint8x `{ , }`,
-    x_y_z u8x `it's`,
-}// trailing space 
-
-root packet packetx {
-    repeat char[] packetx,
-    string zchar @lengthOf(a1) `tab	here`,
-    match string_ as float {
-        ""a\""b"" : Logon,
-        00 : Foo,
-        42 : stringy,
-        [255, 0, ""a\\""] : f32a,
-        // @lengthOf(
-        [7, ""`tick`""] : float,
-        0 : len,
+Eval vm_compute in ("<<<M1681>>>" ++ check (runes_of_ascii "root packet zchar {
+    repeatCount @lengthOf(asx),
+    match string_ as o {
+        7 : packetx,
+        7 : Pad,
+    },// packet A { u8 x, }
+    zchar[65535] T @calculatedFrom(""" ++ [128512]%N ++ runes_of_ascii """),
+    tag @lengthOf(u) `crlf
+        line`,
+    @calculatedFrom("""")
+    _x @calculatedFrom(""a	b"") `// not a comment`,
+    match Z9_ as float {
+        0123456789 : calculatedFrom,
+        ""{,}"" : u,
+        //	t
     },
+    @leftPad()
+    @tag(255)
+    @lengthOf(i8i8)
+    match tag as trueish {
+        4294967296 : uint8x,
+        [65535] : u8x,
+        10 : i64_,
+        """" : metadata,
+    },
+    int64 T,
+}
+
+root packet len {
+    @tag(0)
+    Logon,
+    @tag(255)
+    repeat u64 packetx `it's`,
+    @tag(4294967296)
+    zchar[007] repeatCount `a\`,
+    char[4294967296] asx @calculatedFrom(""it's""),
+}
+
+root packet asx {
+    uint16 options1 @lengthOf(matchKey) `it's`,
+}
+
+root packet Logon {
+    @lengthOf(asx)
+    @calculatedFrom(""packet"")
+    Z9_ @calculatedFrom(""" ++ [28040; 24687]%N ++ runes_of_ascii """),
+    @tag(007)
+    zchar[0123456789] i64_,
+    msg_type `line1
+        line2`,
+    repeat zchar[007] Pad `
+        `,
+    falsey {
+        chars lengthOf ``,
+        match Header as lengthOf {
+            """ ++ [233]%N ++ runes_of_ascii "t" ++ [233]%N ++ runes_of_ascii """ : falsey,
+            42 : uint8x,
+            [
+                007, ""abc"", ""abc"", ""a\\"", 65535,
+                ""a\""b"", 42, ""{,}""
+            ] : charz,
+        },
+        int64 Foo,
+        Z9_ @lengthOf(int) `it's`,
+    },
+    @rightPad()
+    // trailing space 
+    string As @calculatedFrom(""" ++ [28040; 24687]%N ++ runes_of_ascii """),
+    // c
+    match matchKey as repeatCount {
+        4294967296 : msg_type,
+        """ ++ [28040; 24687]%N ++ runes_of_ascii """ : zchar,
+        3 : u8x,
+        """" : asx,
+    },
+}")).
+Eval vm_compute in ("<<<M1867>>>" ++ check (runes_of_ascii "//	t
+root packet packetx {
+    @lengthOf(BodyLength)
+    zchar[00] uint8x @lengthOf(i8i8) `tab	here`,
+    @lengthOf(x_y_z)
+    @leftPad('0')
     @lengthOf(Header)
-    //
-    len `doc`,
-    repeat Pad {
-        // " ++ [27880; 37322]%N ++ runes_of_ascii "
-        repeat Pad `it's`,// @lengthOf(
-        char[65535] i64_ @calculatedFrom(""1"") `a\`,
-        crc `two words`,
-        match len as BodyLength {
-            ""abc"" : a1,
-            [""packet"", 7] : crc,
-            // c
+    f32 pack @calculatedFrom(""a\\""),
+    @calculatedFrom(""`tick`"")
+    //x
+    // " ++ [27880; 37322]%N ++ runes_of_ascii "
+    lengthOf MetaDataX,
+    @lengthOf(Packet)
+    lengthOf @calculatedFrom(""\n"") `doc`,
+    @rightPad()
+    char[0123456789] float,
+    @lengthOf(options1)
+    //x
+    //	t
+    @tag(7)
+    @tag(007)
+    crc int,
+    chars @calculatedFrom(""" ++ [233]%N ++ runes_of_ascii "t" ++ [233]%N ++ runes_of_ascii """),
+    @calculatedFrom(""CRC32"")
+    repeat char[] packetx `two words`,
+}
+
+packet T {
+}
+
+packet T {
+    char[10] u128,
+    @lengthOf(calculatedFrom)
+    chars o,
+    @calculatedFrom(""\n"")
+    match pack as Logon {
+        [""// no comment"", 255, 42, ""CRC32"", ""// no comment""] : asx,
+        ""it's"" : msg_type,
+        // `tick` ""quote"" 'q'
+        0123456789 : msg_type,
+        255 : len,
+    },
+    match chars as int {
+        [00, 42, 42] : x,
+        4294967296 : i64_,
+        [""a	b"", 007, """ ++ [128512]%N ++ runes_of_ascii """, ""// no comment""] : f32a,
+        42 : packetx,
+    },/// triple
+    crc {
+        a1 `" ++ [233]%N ++ runes_of_ascii "`,
+    },
+    @tag(3)
+    /// triple
+    zchar[7] o `
+    `,
+}
+
+packet roots {
+    u64 i64_ ``,
+}")).
+Eval vm_compute in ("<<<M1858>>>" ++ check (runes_of_ascii "packet u128 {
+    @lengthOf(x_y_z)
+    @lengthOf(stringy)
+    @lengthOf(_x)
+    zchar[4294967296] asx @calculatedFrom(""\" ++ [233]%N ++ runes_of_ascii """) `
+    `,
+    char[0] matchKey,
+    rootA u128,
+    metadata metadata,
+    zchar[3] string_ `" ++ [233]%N ++ runes_of_ascii "`,
+    // `tick` ""quote"" 'q'
+    // " ++ [27880; 37322]%N ++ runes_of_ascii "
+    @calculatedFrom(""a	b"")
+    char roots `" ++ [28040; 24687; 31867; 22411]%N ++ runes_of_ascii "`,
+    repeat zchar[10] pack `
+    `,
+    @calculatedFrom(""{,}"")
+    @lengthOf(Foo)
+    packetx {
+        // " ++ [128512]%N ++ runes_of_ascii " emoji
+        match i8i8 as Header {
+            255 : Z9_,
+            """ ++ [233]%N ++ runes_of_ascii "t" ++ [233]%N ++ runes_of_ascii """ : tag,
+            [
+                7, 1, ""// no comment"", ""// no comment"", 3,
+                """", 1
+            ] : lengthOf,
             3 : asx,
+            [42, 0, 1] : Z9_,
+            10 : A,
         },
     },
-    int8 rootA @lengthOf(crc),
-    @lengthOf(chars)
-    // trailing space 
-    @tag(7)
-    @tag(7)
-    repeat char[10] packetx,
-}")).
-Eval vm_compute in ("<<<M975>>>" ++ check (runes_of_ascii "
-root packet _x{@lengthOf(
-    //
-    options1 ) charz @lengthOf( Foo
-)	,// packet A { u8 x, }
-} packet metadata
-    { }
-    packet
-crc  { stringy@calculatedFrom(  ""packet"" )
-`// not a comment` , @tag(42 )repeat
-leftPad	{body@calculatedFrom( ""a\""b"" ) `two words`, } ,@tag( 1	) repeat uint16 packetx `a\` // trailing space 
-,repeat zchar[ 00]matchKey
-/// triple
-//x
-``
-,@calculatedFrom(	""`tick`"" )//
-@calculatedFrom( ""1""
-) char[ 00]
-u128 @lengthOf(
-    a1 ) , @lengthOf( lengthOf)@rightPad
-    (
-    '0'
-) @lengthOf(u128) rootA, } options
-    { } packet u128 { @tag(
-    // `tick` ""quote"" 'q'
-    3 )
-    @tag(
-    // packet A { u8 x, }
-    255 /// triple
-) @lengthOf(
-_x )	char crc
-    `// not a comment`
-// " ++ [128512]%N ++ runes_of_ascii " emoji
-//	t
-,repeat matchKey
-    repeatCount , repeat
-    T
-    `a\`
-,	@tag( 00 ) repeat rootA`tab	here`, } //	t")).
-Eval vm_compute in ("<<<M599>>>" ++ check (runes_of_ascii "root
-    packet options1{
-@lengthOf(  zchar ) charz `
-` , //	t
-Header {//
-char[ 00]
-msg_type, repeat zchar[
-007
-] Z9_ , } ,@tag(  10 )uint32 Foo , u32 u128
-@lengthOf(float ) `two words`  , repeat
-    char[ 7 ] stringy
-    ``
-    ,
-Packet @lengthOf( /// triple
-f32a ) , i64_
-pack
-, @calculatedFrom( ""packet"") repeat lengthOf { body @lengthOf(
-//
+}
+
+root packet T {
+    /// triple
+    int32 roots `two words`,
+    stringy,
+    @rightPad('\x00')
+    float64 len @lengthOf(o),
+    match body as uint8x {
+        10 : tag,
+    },
+    repeat u8 Pad `" ++ [28040; 24687; 31867; 22411]%N ++ runes_of_ascii "`,
+    repeat char[] float,
+    @calculatedFrom(""packet"")
+    u16 x @lengthOf(u8x),
+}//x")).
+Eval vm_compute in ("<<<M256>>>" ++ check (runes_of_ascii "packet
+Pad // " ++ [27880; 37322]%N ++ runes_of_ascii "
+{ @tag(	65535 )repeat char[
+    //	t
+    4294967296 ] o
+    `u8 x,`  ,
+@calculatedFrom(""x y"" )
+metadata // c
+@lengthOf(repeatCount )`tab	here`	,} packet u128 {
 // packet A { u8 x, }
-a1) `{ , }` //
-, x_y_z, },}
-    packet string_
-{ @calculatedFrom(
-    ""a	b""	) zchar[// `tick` ""quote"" 'q'
-0123456789 ] i64_	,@lengthOf(
-    calculatedFrom
-) u8x calculatedFrom , @tag( 1 )	repeat float32 BodyLength
-, chars crc
-, }root packet
-    f32a { i32 _x  , }packet falsey { repeat char[ 007
-    ] MetaDataX ,
-@leftPad ( '0' ) // `tick` ""quote"" 'q'
-packetx
-    , x@calculatedFrom( ""\" ++ [233]%N ++ runes_of_ascii """ ) , }
-")).
-Eval vm_compute in ("<<<M1256>>>" ++ check (runes_of_ascii "MetaData stringy {string
-zchar, zchar
-uint8x  , string BodyLength `{ , }`
-// @lengthOf(
 // " ++ [128512]%N ++ runes_of_ascii " emoji
-,
-    zchar[  1 ]
-crc `doc` ,	zchar[ 7
-] T//	t
-`two words`, char[] A `a\`,
-} packet
-    string_{
-repeat len `a\` ,
-zchar
-    `" ++ [233]%N ++ runes_of_ascii "` ,	}
-    MetaData
-x_y_z { stringy
-    metadata
-    , char[]Z9_
-`it's` ,}
-packet // a // b
-falsey {
-    @calculatedFrom(
-// " ++ [27880; 37322]%N ++ runes_of_ascii "
-// @lengthOf(
-""" ++ [233]%N ++ runes_of_ascii "t" ++ [233]%N ++ runes_of_ascii """
-)match Pad as u
-{0123456789
-    //	t
-    :	trueish,	} , // " ++ [128512]%N ++ runes_of_ascii " emoji
-repeat
-    char[] calculatedFrom `u8 x,`, f64
-    A ,
-    body @calculatedFrom( ""`tick`"" // `tick` ""quote"" 'q'
-) , }root
-packet roots  { zchar[ 10 ]roots
-`crlf
-line`	,
-Z9_
-{ zchar[ 7 ] leftPad`" ++ [233]%N ++ runes_of_ascii "` ,} ,
-int64 calculatedFrom `a\` , crc
-    u128 ,
-char[
-1	] A@calculatedFrom( ""{,}"") `doc`  , }
-")).
-Eval vm_compute in ("<<<M36>>>" ++ check (runes_of_ascii "packet  int {@tag( 00
-) float	,
-@leftPad( '0'
-)@calculatedFrom(""" ++ [28040; 24687]%N ++ runes_of_ascii """ ) match crc
-as body
-    {""`tick`"" : msg_type} // @lengthOf(
-,
-Logon
-,repeat u8x, // " ++ [27880; 37322]%N ++ runes_of_ascii "
-} packet MetaDataX { }packet string_ {
-repeat //
-Header Header
-, // trailing space 
-} packet
-A{ @rightPad // " ++ [27880; 37322]%N ++ runes_of_ascii "
-( '\x00' // trailing space 
-) @leftPad (
-    ' ' ) repeat uint64
-    matchKey // trailing space 
-, f32 len // @lengthOf(
-, // trailing space 
-repeat
-tag
-{i64
-// @lengthOf(
-// " ++ [27880; 37322]%N ++ runes_of_ascii "
-roots
-    // " ++ [27880; 37322]%N ++ runes_of_ascii "
-    @lengthOf( metadata ), }
-, @tag(
-65535
-    ) char[ //
-00 ]
-// a // b
-/// triple
-a1
-    ,repeat i16 i8i8 ,char[
-3 ]int @calculatedFrom(
-""a\\"" ) , // a // b
-@calculatedFrom( """ ++ [28040; 24687]%N ++ runes_of_ascii """) Pad// " ++ [128512]%N ++ runes_of_ascii " emoji
-@lengthOf(
-stringy ) ,/// triple
-}
-")).
-Eval vm_compute in ("<<<M655>>>" ++ check (runes_of_ascii "  packet i8i8 { } options { options1//	t
-=true ; // " ++ [27880; 37322]%N ++ runes_of_ascii "
-}	packet pack{
-    //	t
-    lengthOf{ char[	10
-]	len@calculatedFrom(
-""\" ++ [233]%N ++ runes_of_ascii """
-)
-// " ++ [27880; 37322]%N ++ runes_of_ascii "
-// " ++ [27880; 37322]%N ++ runes_of_ascii "
-`a\` , }
-,
-    } root packet repeatCount{u128 len `line1
-line2` ,
-@calculatedFrom( ""// no comment"" // `tick` ""quote"" 'q'
-) repeat char[]zchar`// not a comment` ,	a1 , repeat zchar[  1
-]	u `crlf
-line` , } packet
-lengthOf{@calculatedFrom(
-    //
-    ""packet"" ) // a // b
-float64
-trueish
-@lengthOf( Z9_
-) , @leftPad
-    ( )
-    match options1 as A
-    //x
-    {""it's"":len
-    ,
-    ["""" ] :T // " ++ [128512]%N ++ runes_of_ascii " emoji
-,	[
-    //
-    00
-// c
-// `tick` ""quote"" 'q'
-] : calculatedFrom, 1:MetaDataX	, 4294967296 :
-    u , } // a // b
-,}
-//
-")).
-Eval vm_compute in ("<<<M1278>>>" ++ check (runes_of_ascii "//x
-packet	_x { repeat
-    charz { repeat asx,//x
-string metadata ,//x
-uint64	a1 @calculatedFrom(	""it's"") `a\`
-    , }
-,
-    @rightPad//
-() msg_type len
-``,MetaDataX asx // " ++ [128512]%N ++ runes_of_ascii " emoji
-,@rightPad
-(
-    '\x00' )zchar[ 3] int,
-}packet Packet
-    { @leftPad(
-    )
-string_{ repeat
-    calculatedFrom// a // b
-`it's` , }
-    // " ++ [128512]%N ++ runes_of_ascii " emoji
-    , @calculatedFrom(""a	b""
-    ) @tag( 00 )@rightPad(
-' ')
-u64 stringy // " ++ [128512]%N ++ runes_of_ascii " emoji
-@calculatedFrom( ""a	b"" // @lengthOf(
-)
-, @leftPad
-    (
-'\x00' ) options1 `" ++ [233]%N ++ runes_of_ascii "`
-    , @rightPad ( ) repeat char[ 007
-]Foo `line1
-line2`
-,
-} options
-{len
-    = '\x00' ;
-    roots  =
-""{,}""packetx =i64 ;
-    }
-")).
-Eval vm_compute in ("<<<M709>>>" ++ check (runes_of_ascii "options
-{ }  root packet a1 { @tag( 00
-)Logon , @calculatedFrom( ""{,}""
-)repeatCount
-// a // b
-// packet A { u8 x, }
-{ repeat float i64_ ,
-    match u8x // trailing space 
-as
-leftPad
-    // `tick` ""quote"" 'q'
-    {3 :u128 ,1	: i8i8
-//	t
-// " ++ [128512]%N ++ runes_of_ascii " emoji
-, 42 :
-    u128
-, """ ++ [233]%N ++ runes_of_ascii "t" ++ [233]%N ++ runes_of_ascii """
-: msg_type , [ 1,
-42 ] : A , } ,
-    repeat
-    i64 metadata ,
-} ,
-    match	len
-as	Z9_ { 255 :o,
-    0123456789 :Pad ,//
-[ 7
-, ""{,}""
-    , // trailing space 
-""abc"" , 007 ] :chars
-, 3
-: // packet A { u8 x, }
-packetx 00 ://
-o, /// triple
-} ,  zchar[ 0123456789
-    ]
-i64_
-@lengthOf(	chars ) , float32 trueish `" ++ [28040; 24687; 31867; 22411]%N ++ runes_of_ascii "` ,}
-")).
-Eval vm_compute in ("<<<M3648>>>" ++ check (runes_of_ascii "options {	LittleEndian	= false  ;ArrayPrefixLenType = u64
-    ;	FixedStringPadChar
-	=	'0'
-	; 
-}
-	packet
-	Quote
-
-{
-
-    repeat 
-InFlags37
-{
-
-    char[] lastPx,
-
-    }	,
-i16 tag7
-
-    ,  char[]
-
-    f1 ,
-
-    zchar[
-
-    6
-]
-
-    Note, } packet
-
-    Order {
-
-u8 
-Ref ,repeat Quote
-	,
-	repeat
-	string  Acct
-	, }root
-
-packet
-Heartbeat
-
-    {
-repeat
-	Quote
-
-    ,@leftPad
-(
-'0')char[
-
-    11	]
-	OrderId	,zchar[  8
-
-    ]Ref
-
-,
-
-u32
-Flags	,u32 Tail
-    @lengthOf(
-
-Body
-
-    ),
-	match
-
-    Flags
-
-as 
-Body 
-{
-156
-	:Order 
-,7 :
-    Quote, } 
-,
-}
-
-")).
-Eval vm_compute in ("<<<M4363>>>" ++ check (runes_of_ascii "options {
-u8x	=
-0123456789
-;
-	} packet
-rootA {
-
-    i8i8 
-repeatCount
-, 
-}
-
-    // " ++ [27880; 37322]%N ++ runes_of_ascii "
-    // a // b
-	  root
-packet
-MetaDataX
-
-{ 	 // @lengthOf(
-
-	Logon  // " ++ [27880; 37322]%N ++ runes_of_ascii "
-	{
-
-int64 i8i8 @lengthOf(Header)  , 
-  //x
-  },  }  root
-	packet// @lengthOf(
-  	Pad  { roots
-
-{ i16
-	Logon 
-@calculatedFrom(
-
-""" ++ [233]%N ++ runes_of_ascii "t" ++ [233]%N ++ runes_of_ascii """
-
-    ),match
-	As
-as
-
-float {[""packet"" 	 //
-		,
-
-""// no comment""
-    ] : a1
-
-,
-65535 : f32a,	[
-
-""a\""b""
-
-    ,
-	""// no comment"" ,""a	b"" ,
-    //
-  ""a	b""
-,
-""a\\"" ] :
-    x 
-, ""{,}""  :
-    rootA ,
-    10
-	:
-
-msg_type
-,
-} 
-,  }
-	,
-
-}	options{ }")).
-Eval vm_compute in ("<<<M4216>>>" ++ check (runes_of_ascii "options
-	{  }
-packet 
-BodyLength	{	i8i8
-
-@lengthOf( trueish 
-) ,	repeat
-body
-
-    ,	// " ++ [27880; 37322]%N ++ runes_of_ascii "
-      @calculatedFrom(""1""
-
-)
-	repeat
-int64
-i64_, @tag( 0 ) 
-MetaDataX
-msg_type	`" ++ [28040; 24687; 31867; 22411]%N ++ runes_of_ascii "` ,	Pad {
-    Header@calculatedFrom(
-
-""""
-), }	,
-	@tag( 42
-	)u8
-    asx  `u8 x,`	,@tag(3 ) repeat string_
-    {
-
-    metadata{ 	 // @lengthOf(
-char[0123456789
-
-    ]
-	crc
-,
-    Packet `" ++ [28040; 24687; 31867; 22411]%N ++ runes_of_ascii "`
-,  //x
-
-	options1 
-	// " ++ [128512]%N ++ runes_of_ascii " emoji
-
-	`tab	here` // packet A { u8 x, }
-    ,
-	}
-,repeat
-
-Packet	,
-}
-    , }
-    //x
-	options
-{ x
-	= char[  10 ]; 
-}")).
-Eval vm_compute in ("<<<M4450>>>" ++ check (runes_of_ascii "packet matchKey {
-}
-
-packet string_ {
-    matchKey @lengthOf(asx),
-    @rightPad(' ')
-    metadata,
-    // a // b
-    // @lengthOf(
-    o chars,
-    uint16 tag `u8 x,`,
-    repeat float32 Logon `two words`,/// triple
-    matchKey @calculatedFrom(""a	b"") `doc`,
-    repeat packetx a1,
-}
-
-MetaData Packet {
-    char[] pack,
-    string zchar,
-    zchar[1] x_y_z,
-    int64 charz `say ""hi""`,
-    u32 lengthOf `doc`,
-}
-
-options {
-    a1 = int16;
-    crc = ' ';
-    tag = char[42]
-    leftPad = true;
-}")).
-Eval vm_compute in ("<<<M600>>>" ++ check (runes_of_ascii "packet x_y_z{ @calculatedFrom( """ ++ [128512]%N ++ runes_of_ascii """ )match a1	as MetaDataX { // a // b
-""" ++ [128512]%N ++ runes_of_ascii """ :
-    u8x , [	""" ++ [28040; 24687]%N ++ runes_of_ascii """ ] :asx 255 : falsey , [ 007
-]
-:
-stringy
-    10: chars /// triple
-, } , string_
-{ char[ 4294967296 ] packetx, }, } // trailing space 
-root packet
-    u128 { calculatedFrom MetaDataX`crlf
-line`	, repeat leftPad x_y_z
-    //
-    ,} packet BodyLength {
-char Pad @lengthOf( uint8x ) `" ++ [233]%N ++ runes_of_ascii "` ,@tag(
-    42  )  @calculatedFrom( """ ++ [28040; 24687]%N ++ runes_of_ascii """)
-    repeat charz ,chars @calculatedFrom(	""" ++ [233]%N ++ runes_of_ascii "t" ++ [233]%N ++ runes_of_ascii """
-    ) , }")).
-Eval vm_compute in ("<<<M628>>>" ++ check (runes_of_ascii "  root packet tag {
-@lengthOf( uint8x )@calculatedFrom(""1"" ) options1	,
-    } MetaData
-    Z9_ {string options1 `crlf
-line` //	t
-,charz string_ ,	} root packet float {@calculatedFrom( ""packet"" )chars{ //x
-repeat chars{
-i8 matchKey `a\` ,
-} ,	}//	t
-, i32 len
-    @lengthOf( u8x )
-// trailing space 
-// " ++ [128512]%N ++ runes_of_ascii " emoji
-, @lengthOf(repeatCount )
-@tag(
-// @lengthOf(
-//	t
-0123456789 )@tag( 007
-) uint64
-    //	t
-    o @calculatedFrom( """ ++ [28040; 24687]%N ++ runes_of_ascii """// a // b
-) ,
-    }
-")).
-Eval vm_compute in ("<<<M148>>>" ++ check (runes_of_ascii "packet Foo  { Logon A`a\`, a1 A
-, @lengthOf(
-//	t
-// trailing space 
-tag ) // trailing space 
-x_y_z
-@lengthOf( leftPad
-    ) `it's`, @tag( 255 ) match crc// @lengthOf(
-as  roots {
-""" ++ [233]%N ++ runes_of_ascii "t" ++ [233]%N ++ runes_of_ascii """	:Foo ,[ 10 , 007 //
-, // a // b
-""" ++ [233]%N ++ runes_of_ascii "t" ++ [233]%N ++ runes_of_ascii """ ,
-// c
-// @lengthOf(
-""a	b""]
-    :x_y_z}
-    , // @lengthOf(
-}  root packet As { }	MetaData calculatedFrom // trailing space 
-{ Z9_ _x ``	,
-} MetaData tag { // " ++ [27880; 37322]%N ++ runes_of_ascii "
-string body , string options1 ,i8i8 pack, }
-")).
-Eval vm_compute in ("<<<M284>>>" ++ check (runes_of_ascii "MetaData
-Header { int64
-zchar
-`u8 x,` , Header u8x ,  zchar[ 65535]u ,	A options1
-`it's` , zchar[  007 ] MetaDataX , zchar[// `tick` ""quote"" 'q'
-0] As , }
-    MetaData Logon	{char[] rootA,
-} packet int
-{
-f32 falsey, } MetaData float { len
-leftPad ,
-    A
-    Foo
-`tab	here`
-    , char[ 65535
-] T
-`line1
-line2` ,	} options // " ++ [128512]%N ++ runes_of_ascii " emoji
-{
-// " ++ [128512]%N ++ runes_of_ascii " emoji
-// " ++ [27880; 37322]%N ++ runes_of_ascii "
-float
-    ='0'
-//x
-// a // b
-;float
-= true
-    ;	Foo = ""\n""}")).
-Eval vm_compute in ("<<<M3615>>>" ++ check (runes_of_ascii "packet  Frame
-{
-u8
-
-    HK
-
-    ,u8 BK
-,  u8 
-TK ,match HK as
-
-Hdr
-    {	1
-    :
-	HdrA
-
-    ,
-2
-
-:
-HdrB
-    ,},match
-
-    BK  as
-Body	{  1 : BodyA ,
-2
-	: BodyB,
-},match
-TK
-	as Trl
-{ 
-1: TrlA ,}
-
-,	}
-packet
-
-HdrA 
-{
-u8 a
-,
-
-    }
-
-packet
-HdrB 
-{ u16
-    b
-,	}	packet BodyA  {	u32 c
-,}packet  BodyB{  u64 d
-
-, }
-packet
-    TrlA	{ u8
-e,
-}root
-
-packet
-	Msg
-	{  Frame
-    ,
-	u8
-x, }")).
-Eval vm_compute in ("<<<M4519>>>" ++ check (runes_of_ascii "packet rootA 
-{
-@rightPad( ' ')	repeat Z9_	roots
-	``  , zchar tag `two words`	,@rightPad (
-    ' '
-    )len
-
-{ 
-      // trailing space 
-	//x
-u128 `doc`
-
-,
-    u8x, char[
-0123456789	// a // b
-  ] calculatedFrom`" ++ [28040; 24687; 31867; 22411]%N ++ runes_of_ascii "`
-    ,msg_type  @lengthOf(
-
-    falsey ) `u8 x,`
-, 
-}
-
-    ,
-@calculatedFrom(  """" )
-
-f64 charz  @lengthOf(
-msg_type
-)
-    `it's` // trailing space 
-  ,	}
-
-")).
-Eval vm_compute in ("<<<M4428>>>" ++ check (runes_of_ascii "// trailing space 
-	packet// " ++ [27880; 37322]%N ++ runes_of_ascii "
-
-pack{
-@lengthOf(
-
-Pad  )
-
-    char[]
-
-msg_type,}
-
-    options { 
-
-    // " ++ [128512]%N ++ runes_of_ascii " emoji
-// " ++ [128512]%N ++ runes_of_ascii " emoji
-    chars
-
-    = 
-int32
-	; //
-
-chars=""CRC32""
-}packet
-f32a{
-@calculatedFrom(
-
-    ""a\""b"") zchar
-	@lengthOf(
-
-    o
-
-    )
-	,
-
-int32
-
-o
-
-    , repeat	int64	// packet A { u8 x, }
-    zchar
-// " ++ [128512]%N ++ runes_of_ascii " emoji
-  `" ++ [28040; 24687; 31867; 22411]%N ++ runes_of_ascii "` ,
-
-}/// triple")).
-Eval vm_compute in ("<<<M1322>>>" ++ check (runes_of_ascii "packet
-    options1 { repeat
-zchar[ 7
-]
-i8i8 ,_x { zchar[ 65535 ]i8i8 @lengthOf( uint8x ) ,match x_y_z as lengthOf
-    { //x
-[ 00// " ++ [27880; 37322]%N ++ runes_of_ascii "
-, 1// " ++ [27880; 37322]%N ++ runes_of_ascii "
-, 10 ,  ""\" ++ [233]%N ++ runes_of_ascii """ , 42 , 00
-] : Pad, [4294967296 ] : asx
-    0123456789:
-x_y_z ,
-}// trailing space 
-, zchar[
-0]float
-    ,}
-    , int16
-    T @lengthOf( charz ) `` , }MetaData pack {int64 //	t
-chars
-,  }")).
-Eval vm_compute in ("<<<M3674>>>" ++ check (runes_of_ascii "root
-packet
-BodyLength
-
-    {
-	u16
-tag  @calculatedFrom( ""packet""
-    )	// packet A { u8 x, }
-	, u8  i8i8 
-,  repeat float64 string_ `u8 x,`
-,}MetaData stringy
-    {
-repeatCount a1 , 
-// " ++ [27880; 37322]%N ++ runes_of_ascii "
-		char[  0123456789 ]
-
-    u128	`doc`//	t
-    , u16
-	_x
-
-,i64
-	pack 
-, 
-i64 BodyLength
-`say ""hi""`, zchar[ 255
-
-    ]
-Z9_
-
-    ,	} ")).
-Eval vm_compute in ("<<<M516>>>" ++ check (runes_of_ascii "root packet
-u128	{} MetaData
-u128 { int32
-    chars , i8 pack // " ++ [27880; 37322]%N ++ runes_of_ascii "
-, i8i8
-options1
+repeat // " ++ [128512]%N ++ runes_of_ascii " emoji
+zchar[
+10 ]_x// " ++ [27880; 37322]%N ++ runes_of_ascii "
 , /// triple
-char[] matchKey,	string
-    msg_type `doc` //
-,  string charz ,
-    }
-    // `tick` ""quote"" 'q'
-    packet
-// " ++ [128512]%N ++ runes_of_ascii " emoji
-// @lengthOf(
-BodyLength	{@lengthOf(
-    As ) repeat
-    _x{ i64_
+}
+options
+{ /// triple
+msg_type
+= true ;}packet tag {// c
+@tag(7 ) i32
+f32a @lengthOf( u8x)
+`two words`
 ,
-    } , repeat char[ 3 ] roots ,}")).
-Eval vm_compute in ("<<<M1903>>>" ++ check (runes_of_ascii "MetaData
-    u { }  options {
-// c
-// @lengthOf(
-float = int8 len rootA =false ; As =	int16 // `tick` ""quote"" 'q'
-repeatCount
-    // trailing space 
-    =
-    int16
-; u8x =
-    //	t
-    '\x00' ; } options	{
-    repeatCount
-= 0
-u128
-    //
-    = false ; i64_
-// trailing space 
-// `tick` ""quote"" 'q'
-= '0' ; //	t
-}
-")).
-Eval vm_compute in ("<<<M2061>>>" ++ check (runes_of_ascii "MetaData
-    u { }  options {
-// c
-// @lengthOf(
-float = int8 ;rootA =false ; As =	int16 // `tick` ""quote"" 'q'
-repeatCount
-    // trailing space 
-    =
-    int16
-; u8x =
-    //	t
-    '\x00' ; ' } options	{
-    repeatCount
-= 0
-u128
-    //
-    = false ; i64_
-// trailing space 
-// `tick` ""quote"" 'q'
-= '0' ; //	t
-}
-")).
-Eval vm_compute in ("<<<M1887>>>" ++ check (runes_of_ascii "MetaData
-    u { }  options {
-// c
-// @lengthOf(
-= float int8 ;rootA =false ; As =	int16 // `tick` ""quote"" 'q'
-repeatCount
-    // trailing space 
-    =
-    int16
-; u8x =
-    //	t
-    '\x00' ; } options	{
-    repeatCount
-= 0
-u128
-    //
-    = false ; i64_
-// trailing space 
-// `tick` ""quote"" 'q'
-= '0' ; //	t
-}
-")).
-Eval vm_compute in ("<<<M2037>>>" ++ check (runes_of_ascii "MetaData
-    u { }  options {
-// c
-// @lengthOf(
-float = int8 ;rootA =false ; As =	int16 // `tick` ""quote"" 'q'
-repeatCount
-    // trailing space 
-    =
-    int16
-; u8x =
-    //	t
-    '\x00' ; } options	{
-    repeatCount
-= 0
-u128
-    //
-    = false ; i64_
-// trailing space 
-// `tick` ""quote"" 'q'
-'0' = ; //	t
-}
-")).
-Eval vm_compute in ("<<<M2050>>>" ++ check (runes_of_ascii "MetaData
-    u { }  options {
-// c
-// @lengthOf(
-float = int8 ;rootA =false ; As =	int16 // `tick` ""quote"" 'q'
-repeatCount
-    // trailing space 
-    =
-    int16
-; u8x =
-    //	t
-    '\x00' ; } options	{
-    repeatCount
-= 0
-u128
-    //
-    = false ; i64_
-// trailing space 
-// `tick` ""quote"" 'q'
-= '0' ; //	t
-
-")).
-Eval vm_compute in ("<<<M1875>>>" ++ check (runes_of_ascii "MetaData
-    u { }   {
-// c
-// @lengthOf(
-float = int8 ;rootA =false ; As =	int16 // `tick` ""quote"" 'q'
-repeatCount
-    // trailing space 
-    =
-    int16
-; u8x =
-    //	t
-    '\x00' ; } options	{
-    repeatCount
-= 0
-u128
-    //
-    = false ; i64_
-// trailing space 
-// `tick` ""quote"" 'q'
-= '0' ; //	t
-}
-")).
-Eval vm_compute in ("<<<M3864>>>" ++ check (runes_of_ascii "  MetaData
-
-o 
-{ char[]	BodyLength, 
-} options
-{ Foo
-	=	uint32
-i8i8
-=
-	char[
-
-    10 
-] ;
-Logon=	true 
-i64_  =
-
-    string  ; }	root
-    //
-      // @lengthOf(
-	packet 
-a1{ i8i8`tab	here`  ,
-
-    @calculatedFrom( 
-""a	b""
-	)	string
-
-calculatedFrom@calculatedFrom(
-    ""abc"" )
-``
-
-,
-
-    }
-
-")).
-Eval vm_compute in ("<<<M4185>>>" ++ check (runes_of_ascii "/// triple
-root
-packet
-Logon{ @calculatedFrom( 
-""CRC32""
-
-)
-
-    uint8x { roots	pack
-`line1
-line2` 
-,}
-
-    ,
-string u ,	}
-	packet
-    body {  uint64  Logon
-	,
-    }	root	packet	lengthOf
-	{
-    }
-    packet A{	u32	pack // `tick` ""quote"" 'q'
-    @calculatedFrom(  // c
-""" ++ [128512]%N ++ runes_of_ascii """
-	)
-	,
-    }")).
-Eval vm_compute in ("<<<M4357>>>" ++ check (runes_of_ascii "root
-packet
-    a1	{ repeat  
-  /// triple
-    zchar[
-
-42
-
-    ] x_y_z , @tag(
-65535
-)
-    @tag( 
-    // c
-    7)// " ++ [128512]%N ++ runes_of_ascii " emoji
-
-@lengthOf( // c
-	A  )  string 
-        //
-	// " ++ [27880; 37322]%N ++ runes_of_ascii "
-	calculatedFrom
-    , string uint8x,
-
-}
-    MetaData 
-
-// trailing space 
-    	MetaDataX{
-
-}
-")).
-Eval vm_compute in ("<<<M25>>>" ++ check (runes_of_ascii "
-root packet  calculatedFrom { repeat Header
-, } MetaData Header{ zchar[// packet A { u8 x, }
-10
-]	As
-    ,// trailing space 
 string
-chars, crc Logon `u8 x,`  , Z9_ Logon ,	}packet trueish
-    {}
-    MetaData
-A { }  options { options1
-=
-' '
-    //
-    ; //	t
-}
-")).
-Eval vm_compute in ("<<<M55>>>" ++ check (runes_of_ascii "// " ++ [27880; 37322]%N ++ runes_of_ascii "
-options { u8x
-=false}	packet crc
-{ @leftPad
-    ( // `tick` ""quote"" 'q'
-'\x00'
-)@calculatedFrom( ""a\""b"" ) char[] u@lengthOf(
-    x ), stringy
-charz	`" ++ [233]%N ++ runes_of_ascii "`
-// c
-// c
-,
-} packet
-// c
-//x
-tag {
-    string T,zchar[ 7
-    ] leftPad ,// `tick` ""quote"" 'q'
-}
-")).
-Eval vm_compute in ("<<<M1513>>>" ++ check (runes_of_ascii "packet
-//	t
-// trailing space 
-_x {
-// packet A { u8 x, }
-// c
-char[
-3
-    ] ] u8x @lengthOf(
-u8x ) , @calculatedFrom(""" ++ [128512]%N ++ runes_of_ascii """ // @lengthOf(
-)
-i16	Foo
-@lengthOf(	string_
-    )`doc`	, repeat	i64 metadata , @lengthOf( string_
-) i8 // c
-u  `line1
-line2`	,
-}
-")).
-Eval vm_compute in ("<<<M1666>>>" ++ check (runes_of_ascii "packet
-//	t
-// trailing spa'ce 
-_x {
-// packet A { u8 x, }
-// c
-char[
-3
-    ] u8x @lengthOf(
-u8x ) , @calculatedFrom(""" ++ [128512]%N ++ runes_of_ascii """ // @lengthOf(
-)
-i16	Foo
-@lengthOf(	string_
-    )`doc`	, repeat	i64 metadata , @lengthOf( string_
-) i8 // c
-u  `line1
-line2`	,
-}
-")).
-Eval vm_compute in ("<<<M1599>>>" ++ check (runes_of_ascii "packet
-//	t
-// trailing space 
-_x {
-// packet A { u8 x, }
-// c
-char[
-3
-    ] u8x @lengthOf(
-u8x ) , @calculatedFrom(""" ++ [128512]%N ++ runes_of_ascii """ // @lengthOf(
-)
-i16	Foo
-@lengthOf(	string_
-    )`doc`	, repeat	metadata i64 , @lengthOf( string_
-) i8 // c
-u  `line1
-line2`	,
-}
-")).
-Eval vm_compute in ("<<<M1284>>>" ++ check (runes_of_ascii "/// triple
-packet BodyLength { @calculatedFrom( ""packet"" ) //x
-char[]
-    options1 @calculatedFrom( ""\" ++ [233]%N ++ runes_of_ascii """ )
-,zchar[ 255 // " ++ [128512]%N ++ runes_of_ascii " emoji
-] metadata , }options	{ int =	'\x00'; stringy =
-false
-    T
-    // " ++ [128512]%N ++ runes_of_ascii " emoji
-    =
-    0 trueish
-    =
-    //	t
-    10
-}
-")).
-Eval vm_compute in ("<<<M1572>>>" ++ check (runes_of_ascii "packet
-//	t
-// trailing space 
-_x {
-// packet A { u8 x, }
-// c
-char[
-3
-    ] u8x @lengthOf(
-u8x ) , @calculatedFrom(""" ++ [128512]%N ++ runes_of_ascii """ // @lengthOf(
-)
-i16	Foo
-@lengthOf(	
-    )`doc`	, repeat	i64 metadata , @lengthOf( string_
-) i8 // c
-u  `line1
-line2`	,
-}
-")).
-Eval vm_compute in ("<<<M720>>>" ++ check (runes_of_ascii "options {metadata
-    =
-char[
-    10]	tag= 007 ; stringy =0 ;x_y_z
-= true // a // b
-; }  root	packet o // " ++ [27880; 37322]%N ++ runes_of_ascii "
-{ @tag( // a // b
-3 ) @leftPad
-(
-'0' )
-@tag(
-// packet A { u8 x, }
-// a // b
-00 ) i64_  @lengthOf(
-    //
-    falsey	)	, }
-")).
-Eval vm_compute in ("<<<M3667>>>" ++ check (runes_of_ascii "packet
-Sub	{
-u8 a
-,	@calculatedFrom(""CRC16"" 
-) u16  SubSum ,
-} root	packet Frame 
-{u16  MsgType ,
-	u16
-
-BodyLen
-    @lengthOf(
-
-Body)
-	, 
-Sub 
-Body ,
-string note, @calculatedFrom( ""CRC16""	)
-	u16
-    Checksum,u8
-    tail
-	,}
-")).
-Eval vm_compute in ("<<<M4042>>>" ++ check (runes_of_ascii "MetaData 	 // packet A { u8 x, }
-matchKey {  u64
-leftPad
-
-    //x
-, u32
-	T
-	`it's`,
-	uint8
-	x ,
-// packet A { u8 x, }
-  char[]
-	f32a
-
-`say ""hi""`,	f64 	 // trailing space 
-
-	stringy	``
-
-,lengthOf
-	Packet`say ""hi""`
-
-,
-
-}")).
-Eval vm_compute in ("<<<M1196>>>" ++ check (runes_of_ascii "packet  lengthOf{
-@tag( 65535 )	match crc as
-    i8i8 {[65535 , 42 , ""it's"", ""x y"",
-    7,
-    // trailing space 
-    ""a	b""
-] : float , 00
-: MetaDataX , 00 : options1 // " ++ [128512]%N ++ runes_of_ascii " emoji
-,	1 :a1, 0 : packetx
-    ,}
-    , }")).
-Eval vm_compute in ("<<<M1621>>>" ++ check (runes_of_ascii "packet
-//	t
-// trailing space 
-_x {
-// packet A { u8 x, }
-// c
-char[
-3
-    ] u8x @lengthOf(
-u8x ) , @calculatedFrom(""" ++ [128512]%N ++ runes_of_ascii """ // @lengthOf(
-)
-i16	Foo
-@lengthOf(	string_
-    )`doc`	, repeat	i64 metadata , @lengthOf(")).
-Eval vm_compute in ("<<<M1717>>>" ++ check (runes_of_ascii "options { trueish = ""`tick`"" ; string_= """ ++ [233]%N ++ runes_of_ascii "t" ++ [233]%N ++ runes_of_ascii """
-    // c
-    } } root
-    packet body { stringy @calculatedFrom(
-""a	b"" ) `line1
-line2` , }
-packet Logon {
-    @leftPad(
-    ' ' ) //	t
-u16 string_ `u8 x,` ,
-}
-")).
-Eval vm_compute in ("<<<M3912>>>" ++ check (runes_of_ascii "
-
-  packet 
-	// " ++ [27880; 37322]%N ++ runes_of_ascii "
-  Foo{	//x
-uint8x
-
-// " ++ [27880; 37322]%N ++ runes_of_ascii "
-  // " ++ [128512]%N ++ runes_of_ascii " emoji
-    ,
-
-    match  len
-    as
-
-options1 
-    // a // b
-    // trailing space 
-    { 3  /// triple
-    :
-
-    i64_
-
-    ,
-    } 
-,
-
-    } ")).
-Eval vm_compute in ("<<<M1798>>>" ++ check (runes_of_ascii "options { trueish = ""`tick`"" ; string_= """ ++ [233]%N ++ runes_of_ascii "t" ++ [233]%N ++ runes_of_ascii """
-    // c
-    } root
-    packet body { stringy @calculatedFrom(
-""a	b"" ) `line1
-line2` , }
-packet Logon {
-    @leftPad' '
-    ( ) //	t
-u16 string_ `u8 x,` ,
-}
-")).
-Eval vm_compute in ("<<<M1853>>>" ++ check (runes_of_ascii "options { trueish = ""`tick`"" ; string_= """ ++ [233]%N ++ runes_of_ascii "t" ++ [233]%N ++ runes_of_ascii """
-    // c
-    } root
-    packet body { na" ++ [239]%N ++ runes_of_ascii "ve @calculatedFrom(
-""a	b"" ) `line1
-line2` , }
-packet Logon {
-    @leftPad(
-    ' ' ) //	t
-u16 string_ `u8 x,` ,
-}
-")).
-Eval vm_compute in ("<<<M901>>>" ++ check (runes_of_ascii "packet trueish { @calculatedFrom( """ ++ [28040; 24687]%N ++ runes_of_ascii """ )	repeat
-    Foo
-    {
-repeat float32
-    Logon `" ++ [28040; 24687; 31867; 22411]%N ++ runes_of_ascii "` ,
-    repeat roots zchar , repeat
-char[]	Logon , u8 Logon @lengthOf(
-    f32a) `a\`
-    ,	} ,
-    } //")).
-Eval vm_compute in ("<<<M4592>>>" ++ check (runes_of_ascii "//	t
-options {
-    packetx = '\x00'
-    len = false// packet A { u8 x, }
-    As = ""a\""b"";
-}
-
-packet BodyLength {
-    string options1 `crlf
-    line`,// c
-    repeatCount @lengthOf(matchKey),
-}")).
-Eval vm_compute in ("<<<M1169>>>" ++ check (runes_of_ascii "packet i64_ {match
-tag as x
-{ """ ++ [128512]%N ++ runes_of_ascii """ : string_ ,
-    ""a\\"" : rootA ,
-""abc""
-    :
-    pack , },
-@tag( 3 ) // @lengthOf(
-string metadata , string stringy
-`u8 x,`
+Foo  @lengthOf( Foo ) ,
+@rightPad(
+'0' ) match As as
 // @lengthOf(
+// `tick` ""quote"" 'q'
+crc // a // b
+{"""": float , //	t
+} , repeat i16 i8i8 , @rightPad/// triple
+(
+    '0' ) repeat u128
+    { i64 tag
+@calculatedFrom( """ ++ [28040; 24687]%N ++ runes_of_ascii """ ) ,i8i8
+@calculatedFrom( // " ++ [27880; 37322]%N ++ runes_of_ascii "
+""{,}""
+)`it's` , repeat string
+    rootA /// triple
+, }, repeat string
+chars,
+    asx, match calculatedFrom as
+calculatedFrom {
+    ""a\""b"" :  Logon ""a	b"" : asx } , char zchar @calculatedFrom( ""1""
+    )
+    `say ""hi""`
+    ,  }
+")).
+Eval vm_compute in ("<<<M201>>>" ++ check (runes_of_ascii "packet _x{
+    u ,@lengthOf( len)
+    match f32a as
+    Pad{""packet"": metadata,
+""CRC32"":x_y_z[ ""abc"" , ""{,}"" ] : Logon , }
+    // c
+    , zchar[ 7  ]	a1  ,
+    @tag( 65535 ) @tag(
+0123456789
+    )
+    //x
+    @lengthOf(
+asx ) repeat
+i16 // @lengthOf(
+tag `{ , }` // `tick` ""quote"" 'q'
+,
+    @leftPad	(
+'\x00' ) match i64_ as x { 0 :crc , [
+//	t
+// trailing space 
+""// no comment"" ] : uint8x ,
+    42
 // a // b
+// trailing space 
+:  string_	, 007 : trueish , [10 ]// " ++ [128512]%N ++ runes_of_ascii " emoji
+: rootA
+""" ++ [28040; 24687]%N ++ runes_of_ascii """
+    : // trailing space 
+len , } //
+, @rightPad (
+'\x00' // trailing space 
+) @tag(
+    //
+    00 ) @calculatedFrom( """ ++ [233]%N ++ runes_of_ascii "t" ++ [233]%N ++ runes_of_ascii """ ) // c
+char[]float
+@calculatedFrom(	""\n"" ),repeat f32 trueish `crlf
+line` ,} // @lengthOf(")).
+Eval vm_compute in ("<<<M299>>>" ++ check (runes_of_ascii "packet
+As {
+char[ 42	]//
+chars
+@calculatedFrom(
+""a\""b"" ) `it's` ,f32a falsey // trailing space 
+`// not a comment` , // " ++ [128512]%N ++ runes_of_ascii " emoji
+string
+trueish
+`" ++ [28040; 24687; 31867; 22411]%N ++ runes_of_ascii "` ,
+@lengthOf(  metadata )@tag(65535 ) @calculatedFrom( ""`tick`"" ) repeat Logon { x_y_z@lengthOf(lengthOf ),uint32  u
+, i64_ @calculatedFrom( ""CRC32""
+    )
+`a\` , asx @calculatedFrom( """" ) `u8 x,` ,	} ,
+u16
+    _x `` , repeat string_
+//
+// `tick` ""quote"" 'q'
+, options1 f32a , @calculatedFrom(""\n""// a // b
+) Packet @lengthOf( zchar
+    ) , }// `tick` ""quote"" 'q'
+options { // a // b
+} packet a1 { @tag( 0123456789)u8
+    uint8x	`{ , }` ,
+    u32// " ++ [27880; 37322]%N ++ runes_of_ascii "
+x_y_z `say ""hi""`
 , }
 ")).
-Eval vm_compute in ("<<<M785>>>" ++ check (runes_of_ascii "MetaData lengthOf
-    { asx x,
-i8 MetaDataX,	string
-/// triple
-// trailing space 
-_x ,
-repeatCount
-    Pad,zchar[
-// trailing space 
-//
-00 ]crc// @lengthOf(
-`two words`
-, } //x")).
-Eval vm_compute in ("<<<M216>>>" ++ check (runes_of_ascii "MetaData msg_type { }root
-    packet T{@rightPad (
-    )
-    repeat char[ 3 ]	x_y_z ,
-    @lengthOf(
-roots  ) string	i64_ @lengthOf(
-u8x // a // b
-) `// not a comment`	,}")).
-Eval vm_compute in ("<<<M146>>>" ++ check (runes_of_ascii "root packet	BodyLength
-    {
-    // " ++ [27880; 37322]%N ++ runes_of_ascii "
-    @lengthOf( asx) repeat char[ 007
-] matchKey ,char[]
-MetaDataX @lengthOf(
-Foo) `tab	here` ,
-repeat uint64 //	t
-f32a
-, }")).
-Eval vm_compute in ("<<<M318>>>" ++ check (runes_of_ascii "
-MetaData roots {
-As  asx , char[1 ] roots
-,
-    // c
-    char[
-    007]
-    matchKey ,/// triple
-zchar[ 1	] len ,x_y_z
-// trailing space 
-/// triple
-u128 , }")).
-Eval vm_compute in ("<<<M2137>>>" ++ check (runes_of_ascii "options{
-_x
-= true
-} options
-{ o	= /// triple
-false
-    ; `two words`
-= ""\n"" } root packet	Pad
-/// triple
-// packet A { u8 x, }
-{	chars
-    // a // b
-    ,}")).
-Eval vm_compute in ("<<<M2325>>>" ++ check (runes_of_ascii "// c
-packet x { @lengthOf( metadata ) ) repeat lengthOf
-,a1{
-trueish	,// c
-repeat//	t
-MetaDataX , } , zchar[
-    42	] rootA // `tick` ""quote"" 'q'
-,
-    }
-")).
-Eval vm_compute in ("<<<M1242>>>" ++ check (runes_of_ascii "packet Z9_{
-// trailing space 
+Eval vm_compute in ("<<<M316>>>" ++ check (runes_of_ascii "options { falsey
 // " ++ [128512]%N ++ runes_of_ascii " emoji
-@calculatedFrom( ""1"" )// packet A { u8 x, }
-matchKey @calculatedFrom(
-""" ++ [128512]%N ++ runes_of_ascii """ ) `tab	here` ,}
-// packet A { u8 x, }
-")).
-Eval vm_compute in ("<<<M2407>>>" ++ check (runes_of_ascii "// c
-packet x { @lengthOf( metadata repeat ) lengthOf
-,a1{
-trueish	,// c
-repeat//	t
-MetaDataX , } , zchar[
-    42	] rootA // `tick` ""quote"" 'q'
-,
-    }
-")).
-Eval vm_compute in ("<<<M2086>>>" ++ check (runes_of_ascii "options{
+// " ++ [27880; 37322]%N ++ runes_of_ascii "
+= ""abc""; roots = // c
+'0'	;MetaDataX
 =
-_x true
-} options
-{ o	= /// triple
-false
-    ; chars
-= ""\n"" } root packet	Pad
-/// triple
-// packet A { u8 x, }
-{	chars
-    // a // b
-    ,}")).
-Eval vm_compute in ("<<<M673>>>" ++ check (runes_of_ascii "packet
-A //
+// " ++ [128512]%N ++ runes_of_ascii " emoji
+// " ++ [128512]%N ++ runes_of_ascii " emoji
+'0' ; //
+crc= // " ++ [128512]%N ++ runes_of_ascii " emoji
+42 // a // b
+x	= '0'
+; } packet A {  repeat uint64 u128 , @tag(
+65535) int16
+options1
+    `line1
+line2` , } options { // packet A { u8 x, }
+int
+=
+""// no comment""msg_type  = zchar[ 0123456789
+    /// triple
+    ] ; calculatedFrom =// @lengthOf(
+u8	;
+    asx=
+""" ++ [28040; 24687]%N ++ runes_of_ascii """ ; body = 10 } options { charz = true	metadata = char[]
+; Packet// c
+=  true}
+packet Logon
 {
-@tag(255
-) @lengthOf(
-// packet A { u8 x, }
-//
-x
-    )  u `crlf
-line`,
-repeat
-body { zchar[ 00
-    //	t
-    ]  crc`a\`
-    , }// c
-, }")).
-Eval vm_compute in ("<<<M2164>>>" ++ check (runes_of_ascii "options{
-_x
-= true
-} options
-{ o	= /// triple
-false
-    ; chars
-= ""\n"" } root packet	
-/// triple
-// packet A { u8 x, }
-{	chars
-    // a // b
-    ,}")).
-Eval vm_compute in ("<<<M2124>>>" ++ check (runes_of_ascii "options{
-_x
-= true
-} options
-{ o	= /// triple
-
-    ; chars
-= ""\n"" } root packet	Pad
-/// triple
-// packet A { u8 x, }
-{	chars
-    // a // b
-    ,}")).
-Eval vm_compute in ("<<<M3882>>>" ++ check (runes_of_ascii "  root
-    packet 
-
-    // c
-    matchKey  {
-zchar[  3
-	]pack @calculatedFrom( ""a	b"" )
-    `doc` , }
-options {} MetaData
-	A{ int8 msg_type	, }
+@calculatedFrom( """ ++ [128512]%N ++ runes_of_ascii """ )
+    repeat packetx rootA,}
 
 ")).
-Eval vm_compute in ("<<<M1005>>>" ++ check (runes_of_ascii "root  packet
-    leftPad { int64 BodyLength `// not a comment` ,	@tag(0 ) @leftPad( ) @tag( 255
+Eval vm_compute in ("<<<M1118>>>" ++ check (runes_of_ascii "// top
+options
+    // c0
+{ charz // c2
+= // c3a
+  // c3b
+f64 // c4a
+  // c4b
+; // c5a
+  // c5b
+metadata = // c7
+7 // c8a
+  // c8b
+; // c9a
+  // c9b
+} // c10
+options
+    // c11
+{
+    // c12
+u128 // c13
+=
+    // c14
+10 // c15
+options1 // c16
+= // c17
+true
+    // c18
+; zchar // c20
+=
+    // c21
+uint16
+    // c22
+; lengthOf
+    // c24
+=
+    // c25
+true
+    // c26
+;
+    // c27
+} // c28a
+  // c28b
+options // c29
+{
+    // c30
+len = // c32
+1
+    // c33
+}
+    // c34
+")).
+Eval vm_compute in ("<<<M1918>>>" ++ check (runes_of_ascii "packet repeatCount {
+    @rightPad(' ')
+    char[42] Header @calculatedFrom(""a\\""),
+    // packet A { u8 x, }
+    // packet A { u8 x, }
+    @tag(10)
+    i64 options1 @calculatedFrom(""x y""),
+    Packet {
+        i64 lengthOf @calculatedFrom(""abc""),
+        repeat zchar[00] i64_ `u8 x,`,
+    },
+    string tag,
+    string o `" ++ [233]%N ++ runes_of_ascii "`,
+    repeat char[42] a1 `doc`,
+    string leftPad @calculatedFrom(""a\\""),
+}")).
+Eval vm_compute in ("<<<M113>>>" ++ check (runes_of_ascii "packet body { Pad {a1`crlf
+line`
+    , zchar[ 007] a1 ,char[10 ] x_y_z  ,
+repeat
+zchar[ 1  ] metadata `u8 x,` , } , string  trueish
+,repeat uint8x u ,	@tag( /// triple
+007 ) calculatedFrom
+{repeat BodyLength
+`doc` ,
+    }/// triple
+, int64 lengthOf,/// triple
+@lengthOf(
+leftPad) @calculatedFrom( ""x y"" ) @calculatedFrom( // " ++ [27880; 37322]%N ++ runes_of_ascii "
+""\" ++ [233]%N ++ runes_of_ascii """ )  falsey a1 , }")).
+Eval vm_compute in ("<<<M2108>>>" ++ check (runes_of_ascii "packet f32a {
+    repeat calculatedFrom u128,
+    T @calculatedFrom(""a\\"") `crlf
+    line`,
+    string charz,
+    @leftPad()
+    repeat pack T,
+}
+
+MetaData charz {
+}
+
+packet i8i8 {
+    A x,
+    match A as leftPad {
+        ""abc"" : msg_type,
+        ""a	b"" : T,
+    },
+    f64 i8i8,
+    char charz `" ++ [233]%N ++ runes_of_ascii "`,
+}// " ++ [128512]%N ++ runes_of_ascii " emoji")).
+Eval vm_compute in ("<<<M1218>>>" ++ check (runes_of_ascii "// top
+root // c0
+packet // c1
+matchKey // c2
+{ // c3
+zchar[ // c4
+3 // c5
+] // c6
+pack // c7
+@calculatedFrom( // c8
+""a	b"" // c9
+) // c10
+`doc` // c11
+, // c12
+} // c13
+options // c14
+{ // c15
+} // c16
+MetaData // c17
+A // c18
+{ // c19
+int8 // c20
+msg_type // c21
+, // c22
+} // c23
+")).
+Eval vm_compute in ("<<<M639>>>" ++ check (runes_of_ascii "root packet tag { }  packet MetaDataX{char[007	]
+// c
+/// triple
+asx  @calculatedFrom( ""a\""b""
+) `say ""hi""`// " ++ [27880; 37322]%N ++ runes_of_ascii "
+,  @tag(4294967296 )
+    char[1//x
+] packetx @calculatedFrom(""a\""b""
+    ) ,
+// " ++ [128512]%N ++ runes_of_ascii " emoji
+// a // b
+@calculatedFrom(""" ++ [233]%N ++ runes_of_ascii "t" ++ [233]%N ++ runes_of_ascii """  ) repeat pack pack // " ++ [27880; 37322]%N ++ runes_of_ascii "
+,
+    } // c")).
+Eval vm_compute in ("<<<M659>>>" ++ check (runes_of_ascii "root packet tag { }  packet MetaDataX{char[007	]
+// c
+/// triple
+asx  @calculatedFrom( ""a\""b""
+) `say ""hi""`// " ++ [27880; 37322]%N ++ runes_of_ascii "
+,  @tag(4294967296 )
+    char[1//x
+] packetx @calculatedFrom(""a\""b""
+    ) ,
+// " ++ [128512]%N ++ runes_of_ascii " emoji
+// a // b
+@calculatedFrom(""" ++ [233]%N ++ runes_of_ascii "t" ++ [233]%N ++ runes_of_ascii """  ) repeat ~ pack // " ++ [27880; 37322]%N ++ runes_of_ascii "
+,
+    } // c")).
+Eval vm_compute in ("<<<M495>>>" ++ check (runes_of_ascii "root packet tag } {  packet MetaDataX{char[007	]
+// c
+/// triple
+asx  @calculatedFrom( ""a\""b""
+) `say ""hi""`// " ++ [27880; 37322]%N ++ runes_of_ascii "
+,  @tag(4294967296 )
+    char[1//x
+] packetx @calculatedFrom(""a\""b""
+    ) ,
+// " ++ [128512]%N ++ runes_of_ascii " emoji
+// a // b
+@calculatedFrom(""" ++ [233]%N ++ runes_of_ascii "t" ++ [233]%N ++ runes_of_ascii """  ) repeat pack // " ++ [27880; 37322]%N ++ runes_of_ascii "
+,
+    } // c")).
+Eval vm_compute in ("<<<M498>>>" ++ check (runes_of_ascii "root packet tag {   packet MetaDataX{char[007	]
+// c
+/// triple
+asx  @calculatedFrom( ""a\""b""
+) `say ""hi""`// " ++ [27880; 37322]%N ++ runes_of_ascii "
+,  @tag(4294967296 )
+    char[1//x
+] packetx @calculatedFrom(""a\""b""
+    ) ,
+// " ++ [128512]%N ++ runes_of_ascii " emoji
+// a // b
+@calculatedFrom(""" ++ [233]%N ++ runes_of_ascii "t" ++ [233]%N ++ runes_of_ascii """  ) repeat pack // " ++ [27880; 37322]%N ++ runes_of_ascii "
+,
+    } // c")).
+Eval vm_compute in ("<<<M1582>>>" ++ check (runes_of_ascii "options {
+    LittleEndian = true;
+}
+packet Sub {
+    u8 a,
+    @calculatedFrom(""CRC16"") u64 SubSum,
+}
+root packet Frame {
+    u16 MsgType,
+    u16 BodyLen @lengthOf(Body),
+    Sub Body,
+    string note,
+    @calculatedFrom(""CRC16"") u64 Checksum,
+    u8 tail,
+}
+")).
+Eval vm_compute in ("<<<M598>>>" ++ check (runes_of_ascii "root packet tag { }  packet MetaDataX{char[007	]
+// c
+/// triple
+asx  @calculatedFrom( ""a\""b""
+) `say ""hi""`// " ++ [27880; 37322]%N ++ runes_of_ascii "
+,  @tag(4294967296 )
+    char[1//x
+] packetx ""a\""b""
+    ) ,
+// " ++ [128512]%N ++ runes_of_ascii " emoji
+// a // b
+@calculatedFrom(""" ++ [233]%N ++ runes_of_ascii "t" ++ [233]%N ++ runes_of_ascii """  ) repeat pack // " ++ [27880; 37322]%N ++ runes_of_ascii "
+,
+    } // c")).
+Eval vm_compute in ("<<<M1898>>>" ++ check (runes_of_ascii "  // " ++ [128512]%N ++ runes_of_ascii " emoji
+  MetaData  trueish
+	{ 
+	    // @lengthOf(
+	asx lengthOf
+	    // a // b
+  ,
+int8 	 // c
+  float
+
+    `it's`
+    ,  }
+MetaData  int{	int8  charz
+
+,
+
+}
+
+    packet
+    asx	{
+o
+@calculatedFrom( ""\" ++ [233]%N ++ runes_of_ascii """)
+,  }")).
+Eval vm_compute in ("<<<M1770>>>" ++ check (runes_of_ascii "
+root	packet 	 /// triple
+		Foo
+
+{	int32
+
+tag
+`doc`
+,
+
+    char[
+    0
+    ]  u8x
+`u8 x,`,charz
+
+charz
+
+,
+	@rightPad  (' '
+
     )
-repeat Header // @lengthOf(
-, } // c")).
-Eval vm_compute in ("<<<M588>>>" ++ check (runes_of_ascii "MetaData
-packetx  { string
-//	t
-//
-matchKey, /// triple
-u8
-    trueish
-    ,
+@tag(
+    3)
+@rightPad
+
+    ( '0'
+
+)repeat
+int16
+
+float,
+}
+
+")).
+Eval vm_compute in ("<<<M1903>>>" ++ check (runes_of_ascii "packet i64_ {
+    @tag(0123456789)
+    x_y_z @calculatedFrom(""it's""),
+    @rightPad(' ')
+    @tag(007)
+    leftPad {
+        zchar[00] Pad,
+    },
+    int32 _x @lengthOf(BodyLength),
+}")).
+Eval vm_compute in ("<<<M432>>>" ++ check (runes_of_ascii "packet
+    // `tick` ""quote"" 'q'
+    crc
 // packet A { u8 x, }
-// `tick` ""quote"" 'q'
-} // a // b")).
-Eval vm_compute in ("<<<M4259>>>" ++ check (runes_of_ascii "packet A {
+//	t
+{
+u32 a1 ,
+    // trailing space 
+    roots
+charz //
+`two words`@tag(	}
+    MetaData int {
+} /// triple")).
+Eval vm_compute in ("<<<M689>>>" ++ check (runes_of_ascii "root packet len // trailing space 
+{
+// " ++ [27880; 37322]%N ++ runes_of_ascii "
+//	t
+char[10
+] metadata	@lengthOf( o $ ) `crlf
+line`,
+    @rightPad
+( ' '
+) string
+    Header @calculatedFrom( ""a\\""
+    ), }
+")).
+Eval vm_compute in ("<<<M446>>>" ++ check (runes_of_ascii "packet
+    // `tick` ""quote"" 'q'
+    crc
+// packet A { u8 x, }
+//	t
+{
+u32 a1 ,
+    // trailing space 
+    roots
+charz //
+`two words`,	}
+    MetaData { int
+} /// triple")).
+Eval vm_compute in ("<<<M422>>>" ++ check (runes_of_ascii "packet
+    // `tick` ""quote"" 'q'
+    crc
+// packet A { u8 x, }
+//	t
+{
+u32 a1 ,
+    // trailing space 
+    roots
+u32 //
+`two words`,	}
+    MetaData int {
+} /// triple")).
+Eval vm_compute in ("<<<M427>>>" ++ check (runes_of_ascii "packet
+    // `tick` ""quote"" 'q'
+    crc
+// packet A { u8 x, }
+//	t
+{
+u32 a1 ,
+    // trailing space 
+    roots
+charz //
+true,	}
+    MetaData int {
+} /// triple")).
+Eval vm_compute in ("<<<M1849>>>" ++ check (runes_of_ascii "packet A {
     match k as n {
         [
-            1, 22, ""c c"", 4, 5,
-            ""f"", 7
+            1, 22, 007, 4, 5,
+            66, 7, 8, 9, 10,
+            11
         ] : B,
         2 : C,
     },
 }")).
-Eval vm_compute in ("<<<M1064>>>" ++ check (runes_of_ascii "MetaData u
-    // packet A { u8 x, }
-    { packetx A
-    , /// triple
-zchar[ 10 ] Packet
-    `" ++ [28040; 24687; 31867; 22411]%N ++ runes_of_ascii "`,
-char[ 10 ]x
-    ,
-}
-")).
-Eval vm_compute in ("<<<M4478>>>" ++ check (runes_of_ascii "packet
+Eval vm_compute in ("<<<M1850>>>" ++ check (runes_of_ascii "root packet
+    matchKey{ zchar[ 
+3  ] 
+pack  @calculatedFrom(  ""a	b""  )
 
-    A {	match	k as n
+    `doc` ,} options
 	{
+} MetaData  A {int8 msg_type	// c
+  	,	}
+")).
+Eval vm_compute in ("<<<M582>>>" ++ check (runes_of_ascii "root packet tag { }  packet MetaDataX{char[007	]
+// c
+/// triple
+asx  @calculatedFrom( ""a\""b""
+) `say ""hi""`// " ++ [27880; 37322]%N ++ runes_of_ascii "
+,  @tag(4294967296 )")).
+Eval vm_compute in ("<<<M254>>>" ++ check (runes_of_ascii "packet rootA {	}
+// `tick` ""quote"" 'q'
+/// triple
+options  {stringy
+    =
+0123456789
+;
+T =42 ;
+string_ = ""a\""b""
+    ; }
+//
+")).
+Eval vm_compute in ("<<<M1240>>>" ++ check (runes_of_ascii "root packet matchKey { zchar[ 3 ] pack @calculatedFrom(
+// c
+""a	b"" ) `doc` , } options { } MetaData A { int8 msg_type , }")).
+Eval vm_compute in ("<<<M1677>>>" ++ check (runes_of_ascii "root packet matchKey {
+    zchar[3] pack @calculatedFrom(""a	b"") `doc`,
+}
 
-[
-	""a"" ,""bb"" ,""c c""
-,
-""d""
+options {
+}
 
-    ,
-""e""
-,
+MetaData A {
+    int8 msg_type,
+}")).
+Eval vm_compute in ("<<<M1908>>>" ++ check (runes_of_ascii "packet a1 {
+}
 
-""f""  ,""g""
-	, ""h"" 
-, ""i""
-]
-	: B  2
-	: C},
+options {
+    MetaDataX = ""`tick`""
+    uint8x = false;
+    f32a = zchar[00];
+}// `tick` ""quote"" 'q'")).
+Eval vm_compute in ("<<<M1824>>>" ++ check (runes_of_ascii "MetaData float {
+    float64 charz `
+        `,
+}
+
+root packet chars {
+    @rightPad('0')
+    Foo,
+    // c
+}")).
+Eval vm_compute in ("<<<M2046>>>" ++ check (runes_of_ascii "
+MetaData chars
+	{
+    uint32 chars `doc` 
+, int64
+    float  , 	 // trailing space 
+
+	u8 pack `
+`
+	,
 }
 ")).
-Eval vm_compute in ("<<<M3337>>>" ++ check (runes_of_ascii "root packet matchKey { zchar[ 3 ] pack @calculatedFrom( ""a	b"" ) `doc` ,
+Eval vm_compute in ("<<<M1759>>>" ++ check (runes_of_ascii "
+packet 
 // c
-} options { } MetaData A { int8 msg_type , }")).
-Eval vm_compute in ("<<<M1433>>>" ++ check (runes_of_ascii "
-packet
-    falsey { Header@calculatedFrom(""packet""  ) , , char[
-    0123456789 ] packetx
-    , } // `tick` ""quote"" 'q'")).
-Eval vm_compute in ("<<<M4534>>>" ++ check (runes_of_ascii "
-options  /// triple
+	metadata{  Logon { A
+`" ++ [28040; 24687; 31867; 22411]%N ++ runes_of_ascii "`
+    ,
+	tag o  ,
 
-{  asx
-
-    = '\x00'
-; } 
-        //	t
-  options{
-pack
-
-=  ""CRC32""
-; 
-}root
-packet  f32a {}
-")).
-Eval vm_compute in ("<<<M1457>>>" ++ check (runes_of_ascii "
-packet
-    falsey { Header@calculatedFrom(""packet""  ) , char[
-    0123456789 ] packetx
-     } // `tick` ""quote"" 'q'")).
-Eval vm_compute in ("<<<M943>>>" ++ check (runes_of_ascii "
-options { msg_type
-=
-    42;
-    metadata  =
-""""
-;matchKey
-=
-// packet A { u8 x, }
-// `tick` ""quote"" 'q'
-u8 }
-")).
-Eval vm_compute in ("<<<M3009>>>" ++ check (runes_of_ascii "packet A {
-    u16 len @lengthOf(body) `a
-b`,
-    u32 crc @calculatedFrom(""CRC32"") `a
-b`,
-    string body,
-}")).
-Eval vm_compute in ("<<<M4531>>>" ++ check (runes_of_ascii "packet	o{
-repeat
-Logon
-uint8x, 
-
-    // c
-		}
-    options{
-
-    asx= zchar[ 3
-]  stringy =
-	'\x00'  } ")).
-Eval vm_compute in ("<<<M3015>>>" ++ check (runes_of_ascii "packet A {
-    u16 len @lengthOf(body) `
-`,
-    u32 crc @calculatedFrom(""CRC32"") `
-`,
-    string body,
-}")).
-Eval vm_compute in ("<<<M2952>>>" ++ check (runes_of_ascii "packet A {
-  match k as n {
-    [""a"", ""bb"", ""c c"", ""d"", ""e"", ""f"", ""g"", ""h"", ""i""] : B
-    2 : C
-  },
-}")).
-Eval vm_compute in ("<<<M2968>>>" ++ check (runes_of_ascii "packet A {
-  match k as n {
-    [""a"", 22, ""c c"", 4, ""e"", 66, ""g"", 8, ""i"", 10] : B,
-    2 : C
-  },
-}")).
-Eval vm_compute in ("<<<M102>>>" ++ check (runes_of_ascii "
-options {
-a1/// triple
-=""1""
-;
-trueish	=  i64 ; stringy=""" ++ [128512]%N ++ runes_of_ascii """
-; u8x
-= 255 ;
-u128
-=
-""`tick`""; }
-
+}
+	,
+zchar  len
+`// not a comment`, }")).
+Eval vm_compute in ("<<<M136>>>" ++ check (runes_of_ascii "MetaData
+options1
+    {
+    char[ 7 ] i8i8
+, zchar[ 65535
+] u128
+    , char[]  repeatCount
+,
+}
 ")).
 Eval vm_compute in ("<<<M128>>>" ++ check (runes_of_ascii "MetaData msg_type
     { char[]
@@ -2715,195 +1037,115 @@ Eval vm_compute in ("<<<M128>>>" ++ check (runes_of_ascii "MetaData msg_type
 o ,
     // `tick` ""quote"" 'q'
     }")).
-Eval vm_compute in ("<<<M1531>>>" ++ check (runes_of_ascii "packet
-//	t
-// trailing space 
-_x {
-// packet A { u8 x, }
-// c
-char[
-3
-    ] u8x @lengthOf(")).
-Eval vm_compute in ("<<<M3520>>>" ++ check (runes_of_ascii "packet chars { } packet MetaDataX { @tag( 42 ) i16 string_ , repeat x `say ""hi""` , }
+Eval vm_compute in ("<<<M1431>>>" ++ check (runes_of_ascii "packet chars { } packet MetaDataX { @tag( 42 ) i16 string_ , repeat x `say ""hi""` , }
 // c
 ")).
-Eval vm_compute in ("<<<M3285>>>" ++ check (runes_of_ascii "MetaData float { float64 charz `
-` , } root // c
-packet chars { @rightPad ( '0' ) Foo , }")).
-Eval vm_compute in ("<<<M3496>>>" ++ check (runes_of_ascii "packet chars { } packet MetaDataX
+Eval vm_compute in ("<<<M1199>>>" ++ check (runes_of_ascii "MetaData float { float64 charz `
+` , } root packet
 // c
-{ @tag( 42 ) i16 string_ , repeat x `say ""hi""` , }")).
-Eval vm_compute in ("<<<M2227>>>" ++ check (runes_of_ascii "options
-{ } options { { BodyLength= u16 Header= f64 ; u128 =
-    true
-    ; } // a // b")).
-Eval vm_compute in ("<<<M2305>>>" ++ check (runes_of_ascii "options
-{ } options { BodyLength= u16~ Header= f64 ; u128 =
-    true
-    ; } // a // b")).
-Eval vm_compute in ("<<<M2258>>>" ++ check (runes_of_ascii "options
-{ } options { BodyLength= u16 Header= ; f64 u128 =
-    true
-    ; } // a // b")).
-Eval vm_compute in ("<<<M3236>>>" ++ check (runes_of_ascii "packet metadata { Logon { A `" ++ [28040; 24687; 31867; 22411]%N ++ runes_of_ascii "` , tag o , }
-// c
-, zchar len `// not a comment` , }")).
-Eval vm_compute in ("<<<M3053>>>" ++ check (runes_of_ascii "packet A {
-    u32 crc @calculatedFrom(""x\
-y""),
-    @calculatedFrom(""x\
-y"") u8 y,
+chars { @rightPad ( '0' ) Foo , }")).
+Eval vm_compute in ("<<<M1410>>>" ++ check (runes_of_ascii "packet chars { } packet MetaDataX { @tag( // c
+42 ) i16 string_ , repeat x `say ""hi""` , }")).
+Eval vm_compute in ("<<<M823>>>" ++ check (runes_of_ascii "packet A {
+  match k as n {
+    [""a"", ""bb"", ""c c"", ""d"", ""e"", ""f""] : B,
+    2 : C
+  },
 }")).
-Eval vm_compute in ("<<<M3459>>>" ++ check (runes_of_ascii "packet o { repeat Logon uint8x , } options { asx = zchar[ 3 ] stringy // c
-= '\x00' }")).
-Eval vm_compute in ("<<<M2241>>>" ++ check (runes_of_ascii "options
-{ } options { BodyLength=  Header= f64 ; u128 =
-    true
-    ; } // a // b")).
-Eval vm_compute in ("<<<M3402>>>" ++ check (runes_of_ascii "MetaData body { i64 pack // c
-`it's` , } packet stringy { int16 calculatedFrom , }")).
-Eval vm_compute in ("<<<M2914>>>" ++ check (runes_of_ascii "packet A {
+Eval vm_compute in ("<<<M1140>>>" ++ check (runes_of_ascii "packet metadata { Logon { A `" ++ [28040; 24687; 31867; 22411]%N ++ runes_of_ascii "` , tag // c
+o , } , zchar len `// not a comment` , }")).
+Eval vm_compute in ("<<<M1345>>>" ++ check (runes_of_ascii "packet o {
+// c
+repeat Logon uint8x , } options { asx = zchar[ 3 ] stringy = '\x00' }")).
+Eval vm_compute in ("<<<M1763>>>" ++ check (runes_of_ascii "packet A {
+    match k as n {
+        [""a"", ""bb"", ""c c""] : B,
+        2 : C,
+    },
+}")).
+Eval vm_compute in ("<<<M1306>>>" ++ check (runes_of_ascii "MetaData
+// c
+body { i64 pack `it's` , } packet stringy { int16 calculatedFrom , }")).
+Eval vm_compute in ("<<<M825>>>" ++ check (runes_of_ascii "packet A {
   match k as n {
     [1, ""bb"", 007, ""d"", 5, ""f""] : B,
     2 : C
   },
 }")).
-Eval vm_compute in ("<<<M2923>>>" ++ check (runes_of_ascii "packet A {
+Eval vm_compute in ("<<<M1962>>>" ++ check (runes_of_ascii "packet A {
+    match k as n {
+        [""a"", ""bb""] : B,
+        2 : C,
+    },
+}")).
+Eval vm_compute in ("<<<M802>>>" ++ check (runes_of_ascii "packet A {
   match k as n {
-    [1, 22, 007, 4, 5, 66, 7] : B,
+    [""a"", 22, ""c c"", 4] : B
     2 : C
   },
 }")).
-Eval vm_compute in ("<<<M2987>>>" ++ check (runes_of_ascii "packet A { Inner { match k as n { [1,22,007,4,5,66,7,8,9,10,11] : B, }, }, }")).
-Eval vm_compute in ("<<<M4099>>>" ++ check (runes_of_ascii "
-packet
-    A
-	{ B  b
-`a
-
-b`
-
-,B
-
-    `a
-
-b`,repeat	B
-	bs `a
-
-b`
-,}
-
-")).
-Eval vm_compute in ("<<<M4229>>>" ++ check (runes_of_ascii "packet  A
-	{
-
-    repeat
-	B {  C{	u8
-x  ,
-} ,
-    D d ,	} ,
-    }
-")).
-Eval vm_compute in ("<<<M2948>>>" ++ check (runes_of_ascii "packet A { Inner { match k as n { [1,22,007,4,5,66,7,8] : B, }, }, }")).
-Eval vm_compute in ("<<<M2850>>>" ++ check (runes_of_ascii "@leftPad u8 int32 [ @lengthOf( @leftPad [ { ( int64 char[ ; match")).
-Eval vm_compute in ("<<<M3573>>>" ++ check (runes_of_ascii "
+Eval vm_compute in ("<<<M859>>>" ++ check (runes_of_ascii "packet A { Inner { match k as n { [1,22,007,4,5,66,7,8] : B, }, }, }")).
+Eval vm_compute in ("<<<M1452>>>" ++ check (runes_of_ascii "
 
   root
-packet
+    packet P  { hdr
 
-P { repeat
-string
-ss
+    {
+u8
 
-,	repeat u16 ns
-,
-
+a
+	,
+}  ,  u8	x, 
+}")).
+Eval vm_compute in ("<<<M1450>>>" ++ check (runes_of_ascii "root packet P {
+    hdr {
+        u8 a,
+    },
+    u8 x,
 }
-
 ")).
-Eval vm_compute in ("<<<M2863>>>" ++ check (runes_of_ascii "packet A {
-  match k as n {
-    [1, 22] : B
-    2 : C
-  },
+Eval vm_compute in ("<<<M1614>>>" ++ check (runes_of_ascii "MetaData Header {
+    // trailing space 
+    u64 falsey,
 }")).
-Eval vm_compute in ("<<<M2860>>>" ++ check (runes_of_ascii "packet A {
-  match k as n {
-    [""a""] : B
-    2 : C
-  },
-}")).
-Eval vm_compute in ("<<<M2804>>>" ++ check (runes_of_ascii "{ { int32 int32 match `a\` 255 packet '0' ) repeat '\x00'")).
-Eval vm_compute in ("<<<M3154>>>" ++ check (runes_of_ascii "packet A { match k as n { 1 : B // a // b 2 : C }, }")).
-Eval vm_compute in ("<<<M2265>>>" ++ check (runes_of_ascii "options
-{ } options { BodyLength= u16 Header= f64")).
-Eval vm_compute in ("<<<M2754>>>" ++ check (runes_of_ascii "f64 false float32 match int16 int16 '\x00' char")).
-Eval vm_compute in ("<<<M2188>>>" ++ check (runes_of_ascii "options{
-_x
-= true
-} options
-{ o	= /// triple")).
-Eval vm_compute in ("<<<M3041>>>" ++ check (runes_of_ascii "MetaData M {
-    u8 x `
-x`,
-    T t `
-x`,
-}")).
-Eval vm_compute in ("<<<M2588>>>" ++ check (runes_of_ascii "packet A { x @calculatedFrom(""c"") `d`, }")).
-Eval vm_compute in ("<<<M1715>>>" ++ check (runes_of_ascii "options { trueish = ""`tick`"" ; string_=")).
-Eval vm_compute in ("<<<M3180>>>" ++ check (runes_of_ascii "packet A { u8 x,// a
-
-
-// b
-
- u8 y, }")).
-Eval vm_compute in ("<<<M2362>>>" ++ check (runes_of_ascii "// c
-packet x { @lengthOf( metadata")).
-Eval vm_compute in ("<<<M4253>>>" ++ check (runes_of_ascii "packet A {
-    u8 x `d x`,// c x
-}")).
-Eval vm_compute in ("<<<M3036>>>" ++ check (runes_of_ascii "root packet A {
+Eval vm_compute in ("<<<M1905>>>" ++ check (runes_of_ascii "MetaData M {
     u8 x `x
-`,
+    `,
+    T t `x
+    `,
 }")).
-Eval vm_compute in ("<<<M2603>>>" ++ check (runes_of_ascii "packet A { match k as n { }, }")).
-Eval vm_compute in ("<<<M1326>>>" ++ check (runes_of_ascii "options { matchKey	='\x00';	}")).
-Eval vm_compute in ("<<<M2599>>>" ++ check (runes_of_ascii "packet A { B { u8 x, } C, }")).
-Eval vm_compute in ("<<<M3013>>>" ++ check (runes_of_ascii "packet A {
+Eval vm_compute in ("<<<M916>>>" ++ check (runes_of_ascii "MetaData M {
+    u8 x `a
+b`,
+    T t `a
+b`,
+}")).
+Eval vm_compute in ("<<<M1115>>>" ++ check (runes_of_ascii "root packet u128 { chars `it's` , }
+// c
+")).
+Eval vm_compute in ("<<<M1062>>>" ++ check (runes_of_ascii "packet A {    u8 x, // c    u8 y,}")).
+Eval vm_compute in ("<<<M1946>>>" ++ check (runes_of_ascii "packet A {
     u8 x `
-`,
+        `,
 }")).
-Eval vm_compute in ("<<<M4560>>>" ++ check (runes_of_ascii "
-
-  packet  packetx {
-}
+Eval vm_compute in ("<<<M1003>>>" ++ check (runes_of_ascii "packet A {
+ u8 x `d" ++ [8202]%N ++ runes_of_ascii "`, // c" ++ [8202]%N ++ runes_of_ascii "
+}")).
+Eval vm_compute in ("<<<M1060>>>" ++ check (runes_of_ascii "packet A {
+}// a// b// c
 ")).
-Eval vm_compute in ("<<<M4414>>>" ++ check (runes_of_ascii "packet u8x {
-    //	t
-}")).
-Eval vm_compute in ("<<<M4029>>>" ++ check (runes_of_ascii "packet A {
-    // a
-}")).
-Eval vm_compute in ("<<<M1198>>>" ++ check (runes_of_ascii "  packet i64_ { }
-
+Eval vm_compute in ("<<<M59>>>" ++ check (runes_of_ascii "// packet A { u8 x, }
 ")).
-Eval vm_compute in ("<<<M1411>>>" ++ check (runes_of_ascii "
-packet
-    falsey")).
-Eval vm_compute in ("<<<M3121>>>" ++ check (runes_of_ascii "// c" ++ [12]%N ++ runes_of_ascii "
+Eval vm_compute in ("<<<M2101>>>" ++ check (runes_of_ascii "// c" ++ [11]%N ++ runes_of_ascii "
+packet  A{ }
+")).
+Eval vm_compute in ("<<<M1042>>>" ++ check (runes_of_ascii "// c" ++ [8203]%N ++ runes_of_ascii "
 packet A {
 }")).
-Eval vm_compute in ("<<<M3078>>>" ++ check (runes_of_ascii "packet A {
-}// c" ++ [5760]%N)).
-Eval vm_compute in ("<<<M4141>>>" ++ check (runes_of_ascii "packet rootA {
-}")).
-Eval vm_compute in ("<<<M2690>>>" ++ check (runes_of_ascii "[" ++ [29783; 1899]%N ++ runes_of_ascii "]" ++ [65533; 65533]%N ++ runes_of_ascii "[" ++ [65533]%N ++ runes_of_ascii "'" ++ [65533; 65533; 65533; 65533]%N)).
-Eval vm_compute in ("<<<M2220>>>" ++ check (runes_of_ascii "options
-{")).
-Eval vm_compute in ("<<<M2809>>>" ++ check ([27]%N ++ runes_of_ascii "" ++ [65533; 65533; 8; 65533]%N ++ runes_of_ascii " l")).
-Eval vm_compute in ("<<<M2473>>>" ++ check (runes_of_ascii "'\x00'")).
-Eval vm_compute in ("<<<M2675>>>" ++ check (runes_of_ascii "u8 x,")).
-Eval vm_compute in ("<<<M2501>>>" ++ check (runes_of_ascii "// x")).
-Eval vm_compute in ("<<<M2524>>>" ++ check (runes_of_ascii "`\`")).
-Eval vm_compute in ("<<<M2507>>>" ++ check (runes_of_ascii """""")).
-Eval vm_compute in ("<<<M2688>>>" ++ check ([0]%N)).
+Eval vm_compute in ("<<<M348>>>" ++ check (runes_of_ascii "packet i64_ { }
+")).
+Eval vm_compute in ("<<<M86>>>" ++ check (runes_of_ascii "
+// c
+")).
+Eval vm_compute in ("<<<M179>>>" ++ check (runes_of_ascii "  
+")).
